@@ -17,21 +17,22 @@ func init() {
 		ID:    "C17",
 		Title: "Without credentials, blobs are reachable only through a valid share chain; every other endpoint requires auth",
 		Explanation: "Decided (structural necessary conditions, all computed from go/ssa + types of the current tree): " +
-			"H-gate — in (*shareHandler).handleGetViaSharing every call that receives the http.ResponseWriter (other than rw.Header()) is a content emitter; each emitter lies after normal exhaustion of the chain loop (dominated by the loop's range-exhausted edge, no other way out of the loop), serves exactly the requested blobRef parameter, and any emitter other than the single-blob gethandler.ServeBlobRef additionally sits under the fact isTransitive==true; " +
+			"EFFECTIVE BODY — H-gate, H-links and the handler-function clause of H-auth analyse an anchor function together with, transitively (depth 5), the unexported same-package functions/methods and function literals it calls statically (one frame per call site; a parameter of a helper stands for the caller's argument, a result of the call for the helper's returned values; go/defer calls and exported functions stay opaque). A validation predicate evaluated inside a helper counts for the handler only through a result of the helper (bool, or the trailing error) that reports the verdict faithfully: from every bad edge of the helper's own test only returns carrying the bad verdict (a constant, a provably non-nil error, or the predicate's value itself) are reachable, and — per chain-position scenario — no return carrying a good or unknown verdict is reachable from the helper's entry without crossing the test's good edge; the caller's tests of that result are then treated as tests of the predicate (recursively). A helper that computes the predicate but drops, inverts or short-cuts the verdict, or a caller that ignores the helper's result, therefore violates the predicate's obligation. " +
+			"H-gate — in (*shareHandler).handleGetViaSharing (effective body) every call that receives the http.ResponseWriter (other than rw.Header()) is a content emitter; each emitter lies after normal exhaustion of the chain loop (dominated by the loop's range-exhausted edge, no other way out of the loop), serves exactly the requested blobRef parameter, and any emitter other than the single-blob gethandler.ServeBlobRef additionally sits under the fact isTransitive==true; " +
 			"for every validation predicate (share not deleted in the index, share fetch ok, size bound, AsShare ok, not expired, hop 1 equals the share target, transitive when the chain is longer than 2, intermediate fetch ok, bytesHaveSchemaLink(cur, bytes-of-cur, next) true, assemble only when transitive) no emitter is reachable from the predicate's bad edge, the predicate is evaluated on the right values (current chain element, the share parsed from that element's bytes, chain[1] / chain[i+1]) and, under each chain-position scenario (first element of a chain of length 1, 2, long; middle element), every path through one loop iteration crosses the predicate's good edge; non-GET requests return before any fetch or emitter; ServeHTTP/serveHTTP hand the ResponseWriter only to handleGetViaSharing or to the 400/401 error senders. " +
 			"H-links — every exported blob.Ref-carrying accessor of *schema.Blob is classified (tree link or not, one reason each); each tree-link accessor (ByteParts incl. every blob.Ref field of BytesPart, DirectoryEntries, StaticSetMembers, StaticSetMergeSets) is called in bytesHaveSchemaLink on the parsed blob, reachable for each camliType it applies to, and its result is compared for equality with the target parameter with the comparison deciding the return value; every possibly-true return is guarded by such a comparison (no text search can say yes). " +
-			"H-auth — (i) every handler type registered with blobserver.RegisterHandlerConstructor is either answered true by handlerTypeWantsAuth (evaluated on the constant) or is a reasoned exception re-checked structurally (share: H-gate; root: serveDiscovery only under auth.Allowed); (ii) every blob-protocol handler constructor (handlers.Create*Handler, gethandler.CreateGetHandler) is called only where its result flows into auth.RequireAuth and nowhere else, and every Operation handed to RequireAuth is a non-zero constant (a zero Operation is allowed to everybody); (iii) every handler registration (HandlerInstaller.Handle, ServeMux/webserver Handle/HandleFunc) in the server packages installs an always-refusing handler, an auth.RequireAuth value, an auth.Handler wrap, a handler function all of whose response paths go through RequireAuth, or a bare handler only on the edge where handlerTypeWantsAuth(h.htype) is false for the same htype given to CreateHandler; (iv) auth.Handler / RequireAuth call the inner handler only under Allowed(sameRequest, op)==true, Allowed says yes only under AllowedWithAuth(mode, req, op)==true, and AllowedWithAuth returns (AllowedAccess(req) & mask) == mask with mask derived from op. " +
+			"H-auth — (i) every handler type registered with blobserver.RegisterHandlerConstructor is either answered true by handlerTypeWantsAuth (evaluated on the constant) or is a reasoned exception re-checked structurally (share: H-gate; root: serveDiscovery only under auth.Allowed); (ii) every blob-protocol handler constructor (handlers.Create*Handler, gethandler.CreateGetHandler) is called only where its result flows into auth.RequireAuth and nowhere else, and every Operation handed to RequireAuth is a non-zero constant (a zero Operation is allowed to everybody); (iii) every handler registration (HandlerInstaller.Handle, ServeMux/webserver Handle/HandleFunc) in the server packages installs an always-refusing handler, an auth.RequireAuth value, an auth.Handler wrap, a handler function (literal, declared function or bound method value; followed through the unexported same-package helpers that receive its ResponseWriter) all of whose response paths go through RequireAuth, or a bare handler only on the edge where handlerTypeWantsAuth(h.htype) is false for the same htype given to CreateHandler; (iv) auth.Handler / RequireAuth call the inner handler only under Allowed(sameRequest, op)==true, Allowed says yes only under AllowedWithAuth(mode, req, op)==true, and AllowedWithAuth returns (AllowedAccess(req) & mask) == mask with mask derived from op. " +
 			"H-secret — for every declared AllowedAccess of every auth.AuthMode implementation, and (per call site, operands translated to the caller) every module function with a single bool or integer (Operation) result that feeds its decision, each branch condition is split into atoms; an atom is a credential comparison when it is an equality test (==, !=, bytes.Equal, hmac.Equal, EqualFold, ConstantTimeCompare/Compare tested against an int constant, HasPrefix/HasSuffix/Contains) with exactly one operand derived from the *http.Request and a non-constant other operand (the secret). The comparison is strong when the secret — or, for plain equality, the request operand — is provably non-empty where it is compared: a dominating non-empty check (!= \"\", len, Contains of a non-empty constant), a non-empty constant or concatenation with one, the result of a module function all of whose returns are non-empty, a package variable every assignment of which (whole package / whole module for exported ones; address never taken) stores a non-empty value that for run-time assignments derives from crypto/rand (buffer of positive constant length filled by crypto/rand.Read / io.ReadFull(rand.Reader), rendered by Sprintf/hex/base64) AND whose read is preceded on every path by an initialisation (package initialiser, an assignment, or sync.Once.Do / a call of a function every return of which lies behind such an assignment, the Once not being consumed by any other function), or a struct field every assignment of which in the module stores a non-empty value and which no creation of the struct leaves unset. For a CONFIGURED secret (a field of the auth mode: the operator's choice, possibly empty) the comparison is also strong when the request-side operand is proven present in the request on that path: a result of (*http.Request).BasicAuth under ok==true, a result of a module parser of the request under err==nil where every nil-error return of that parser lies behind a non-empty check of the header it reads (httputil.BasicAuth), or a submatch of a request value against an init-time regexp.MustCompile(constant) whose shortest match is non-empty, under a length check of the match — a request without credentials then cannot reach the success edge; an operand that merely reads as \"\" when the field is absent (Header.Get, FormValue without presence check) does not qualify. A direct read of a lazily minted package variable outside such an accessor is therefore weak (\"secret may still be empty\"). Each AllowedAccess is then executed over every assignment of its free and weak atoms with all strong comparisons failing: a grant (non-zero Operation) that disappears when the weak comparisons are made to fail as well is reported with the minimal set of possibly-empty secrets that alone authorise the request. " +
-			"NOT decided: that the predicates compute the right thing on every input (schema parsing, expiry arithmetic, index deletion state, hash of fetched bytes); completeness (every valid chain is served) beyond the link-kind agreement; inside each auth mode only the non-emptiness/initialisation of the compared secrets and the presence of the request-side credential are decided (H-secret; an empty configured password that the request must literally present is a configuration hazard, not a violation), not that the right request field is compared with the right secret, that the encoding of a non-empty random buffer is non-empty for exotic format verbs, that crypto/rand cannot fail (a panic inside the Once leaves the variable empty), nor zero values created by reflection/decoding; a module callee that contains a comparison against a package-level string or an auth-mode field but is not followed (several results, dynamic call) is reported undecided; app handlers' own auth (separate processes behind pkg/server/app); what authenticated handlers do after the wrapper; timing side channels; runtime configuration generation.",
+			"NOT decided: helper-crossing is limited to static calls of unexported same-package functions and literals called directly: a chain loop moved as a whole into a helper, an emitter inside a deferred/stored literal, a verdict handed over through a struct field, channel or captured variable instead of a result, and the Allowed/AllowedWithAuth/RequireAuth wrapper bodies of pkg/auth split into further helpers beyond the existing serveHTTPForOp shape are reported undecided/violated rather than followed; that the predicates compute the right thing on every input (schema parsing, expiry arithmetic, index deletion state, hash of fetched bytes); completeness (every valid chain is served) beyond the link-kind agreement; inside each auth mode only the non-emptiness/initialisation of the compared secrets and the presence of the request-side credential are decided (H-secret; an empty configured password that the request must literally present is a configuration hazard, not a violation), not that the right request field is compared with the right secret, that the encoding of a non-empty random buffer is non-empty for exotic format verbs, that crypto/rand cannot fail (a panic inside the Once leaves the variable empty), nor zero values created by reflection/decoding; a module callee that contains a comparison against a package-level string or an auth-mode field but is not followed (several results, dynamic call) is reported undecided; app handlers' own auth (separate processes behind pkg/server/app); what authenticated handlers do after the wrapper; timing side channels; runtime configuration generation.",
 		RuleDocs: map[string]string{
-			"H-gate":   "handleGetViaSharing: emitters (calls receiving the ResponseWriter) x validation predicates: loop-exit dominance, bad-edge unreachability, per-scenario must-cross of the good edge, value relations; method gate; entry points hand rw only to the gate or error senders",
-			"H-links":  "bytesHaveSchemaLink honours exactly the tree-link accessors of schema.Blob: each called, type-reachable, compared with target, decisive; every possibly-true return guarded by such a comparison; accessor classification exhaustive",
+			"H-gate":   "handleGetViaSharing and the unexported pkg/server helpers/literals it calls (effective body; helper verdicts must be reported faithfully through a bool/error result): emitters (calls receiving the ResponseWriter) x validation predicates: loop-exit dominance, bad-edge unreachability, per-scenario must-cross of the good edge, value relations; method gate; entry points hand rw only to the gate or error senders",
+			"H-links":  "bytesHaveSchemaLink (with the unexported helpers it calls: a helper's bool verdict is a link condition when every yes-answer of the helper is one) honours exactly the tree-link accessors of schema.Blob: each called, type-reachable, compared with target, decisive; every possibly-true return guarded by such a comparison; accessor classification exhaustive",
 			"H-secret": "auth modes: every equality test of request data against a non-constant secret reachable from an AllowedAccess; the secret (or the request operand) must be provably non-empty — or, for a configured field of the mode, the request operand provably present (successful parse of a credential header) — and, for package variables, initialised before the read (Once-guarded accessor, not the raw variable); exhaustive evaluation of each AllowedAccess shows no grant rests only on possibly-empty secrets",
 			"H-auth":   "registered handler types vs. handlerTypeWantsAuth (+2 re-checked exceptions); blob-protocol handler constructors flow only into RequireAuth with non-zero op; every Handle registration classified; auth wrappers call through only under Allowed==true",
 		},
 		Run:       runC17,
 		DesignRef: "DESIGN.md §4 C17",
-		Technique: "static analysis: dominance and edge-reachability over go/ssa with scenario-pruned path exploration, value dependence, who-may-call and table agreement (handler types, link accessors); for H-secret interprocedural (call-site sensitive) value derivation of compared operands, dominance of initialisation over reads, module-wide writer sets of package variables and struct fields, and exhaustive boolean evaluation of the auth modes' decision functions",
+		Technique: "static analysis: dominance and edge-reachability over go/ssa with scenario-pruned path exploration, carried across calls of same-package helpers by per-call-site frames (argument/parameter and result/return binding) and verdict-faithfulness summaries of helper results, value dependence, who-may-call and table agreement (handler types, link accessors); for H-secret interprocedural (call-site sensitive) value derivation of compared operands, dominance of initialisation over reads, module-wide writer sets of package variables and struct fields, and exhaustive boolean evaluation of the auth modes' decision functions",
 		LevelText: "Decides structural necessary conditions only: nothing is written to an unauthenticated share response except after the whole via-chain passed every validation predicate on the right values; the link check honours exactly the schema tree links; every registered handler type and every installed endpoint of the server packages is behind an auth wrapper (or is the share/root exception, re-checked), and the wrappers call through only when Allowed said yes; inside the auth modes no grant depends only on comparisons against a secret that may be empty or not yet minted (a request carrying nothing would pass them). Does not decide that the predicates, the auth modes' choice of fields or the schema parser are correct on all inputs, nor app-side auth.",
 	})
 }
@@ -294,19 +295,41 @@ func c17PhiLeaves(v ssa.Value) []ssa.Value {
 
 // c17Scenario fixes symbolic integers (loop index, chain length) and one
 // access path assumed non-nil, so that branch conditions over them can be
-// evaluated during path exploration.
+// evaluated during path exploration. fr is the frame of the effective body
+// whose conditions are evaluated (nil = the root function): parameters of a
+// helper stand for the caller's arguments.
 type c17Scenario struct {
 	Name    string
 	Idx     ssa.Value
 	IdxVal  int64
 	Chain   ssa.Value
 	LenVal  int64
-	NonNil  string // access path assumed non-nil ("" = none)
+	NonNil  string // access path (in the root function) assumed non-nil ("" = none)
 	Unknown []string
+	fr      *c17GFrame
 }
 
-func (s *c17Scenario) intVal(v ssa.Value) (int64, bool) {
-	if s.Idx != nil && v == s.Idx {
+// in returns the scenario for evaluating conditions of frame fr.
+func (s *c17Scenario) in(fr *c17GFrame) *c17Scenario {
+	if s == nil {
+		return nil
+	}
+	c := *s
+	c.fr = fr
+	return &c
+}
+
+func (s *c17Scenario) intVal(v ssa.Value) (int64, bool) { return s.intValIn(v, s.fr, 0) }
+
+func (s *c17Scenario) intValIn(v ssa.Value, fr *c17GFrame, d int) (int64, bool) {
+	if d > 24 || v == nil {
+		return 0, false
+	}
+	if fr != nil {
+		v, fr = c17Resolve(v, fr)
+	}
+	atRoot := fr == nil || fr.parent == nil
+	if atRoot && s.Idx != nil && v == s.Idx {
 		return s.IdxVal, true
 	}
 	if n, ok := ConstInt(v); ok {
@@ -314,12 +337,18 @@ func (s *c17Scenario) intVal(v ssa.Value) (int64, bool) {
 	}
 	switch x := v.(type) {
 	case *ssa.Call:
-		if b, ok := x.Call.Value.(*ssa.Builtin); ok && b.Name() == "len" && len(x.Call.Args) == 1 && s.Chain != nil && sameOrigin(x.Call.Args[0], s.Chain) {
-			return s.LenVal, true
+		if b, ok := x.Call.Value.(*ssa.Builtin); ok && b.Name() == "len" && len(x.Call.Args) == 1 && s.Chain != nil {
+			a, af := x.Call.Args[0], fr
+			if af != nil {
+				a, af = c17Resolve(a, af)
+			}
+			if (af == nil || af.parent == nil) && sameOrigin(a, s.Chain) {
+				return s.LenVal, true
+			}
 		}
 	case *ssa.BinOp:
-		a, ok1 := s.intVal(x.X)
-		b, ok2 := s.intVal(x.Y)
+		a, ok1 := s.intValIn(x.X, fr, d+1)
+		b, ok2 := s.intValIn(x.Y, fr, d+1)
 		if ok1 && ok2 {
 			switch x.Op {
 			case token.ADD:
@@ -329,7 +358,7 @@ func (s *c17Scenario) intVal(v ssa.Value) (int64, bool) {
 			}
 		}
 	case *ssa.Convert:
-		return s.intVal(x.X)
+		return s.intValIn(x.X, fr, d+1)
 	}
 	return 0, false
 }
@@ -370,7 +399,7 @@ func (s *c17Scenario) Eval(cond ssa.Value) (known, val bool) {
 		} else if IsNilConst(bo.X) {
 			other = bo.Y
 		}
-		if other != nil && AccessPath(other) == s.NonNil {
+		if other != nil && c17PathUp(AccessPath(other), s.fr) == s.NonNil {
 			return true, (bo.Op == token.NEQ) == pol
 		}
 	}
@@ -381,7 +410,14 @@ func (s *c17Scenario) Eval(cond ssa.Value) (known, val bool) {
 // not followed; branch conditions the scenario can evaluate are followed only
 // on the taken side; blocks in stop are recorded but not expanded.
 func c17Reach(start *ssa.BasicBlock, sc *c17Scenario, cut func(from *ssa.BasicBlock, succIdx int) bool, stop map[*ssa.BasicBlock]bool) map[*ssa.BasicBlock]bool {
+	seen, _ := c17ReachE(start, sc, cut, stop)
+	return seen
+}
+
+// c17ReachE is c17Reach that also returns the control-flow edges traversed.
+func c17ReachE(start *ssa.BasicBlock, sc *c17Scenario, cut func(from *ssa.BasicBlock, succIdx int) bool, stop map[*ssa.BasicBlock]bool) (map[*ssa.BasicBlock]bool, map[[2]*ssa.BasicBlock]bool) {
 	seen := map[*ssa.BasicBlock]bool{}
+	edges := map[[2]*ssa.BasicBlock]bool{}
 	var walk func(b *ssa.BasicBlock)
 	walk = func(b *ssa.BasicBlock) {
 		if seen[b] {
@@ -409,11 +445,12 @@ func c17Reach(start *ssa.BasicBlock, sc *c17Scenario, cut func(from *ssa.BasicBl
 			if cut != nil && cut(b, i) {
 				continue
 			}
+			edges[[2]*ssa.BasicBlock{b, s}] = true
 			walk(s)
 		}
 	}
 	walk(start)
-	return seen
+	return seen, edges
 }
 
 func c17IsBuiltinLen(v ssa.Value) (arg ssa.Value, ok bool) {
@@ -433,6 +470,693 @@ func c17BlockNames(bs []*ssa.BasicBlock) string {
 		s = append(s, fmt.Sprintf("%d", b.Index))
 	}
 	return strings.Join(s, ",")
+}
+
+// ---------------------------------------------------------------------------
+// effective body: a function plus, transitively, the unexported same-package
+// functions/methods and function literals it calls statically. One frame per
+// call site; a parameter of a helper stands for the caller's argument, the
+// results of the call for the helper's returned values.
+
+type c17GFrame struct {
+	fn     *ssa.Function
+	call   CallSite // the call in parent.fn (zero value for the root)
+	parent *c17GFrame
+	depth  int
+	kids   map[ssa.CallInstruction]*c17GFrame
+}
+
+type c17Body struct {
+	root   *c17GFrame
+	frames []*c17GFrame // pre-order: every frame after its ancestors
+}
+
+// c17FV is a value together with the frame it is evaluated in.
+type c17FV struct {
+	v  ssa.Value
+	fr *c17GFrame
+}
+
+// c17Site is a call site of the effective body.
+type c17Site struct {
+	fr *c17GFrame
+	c  CallSite
+}
+
+func (s c17Site) ok() bool { return s.c.Instr != nil }
+
+// c17Inlinable: callee is a function literal or an unexported declared
+// function/method of root's package with a body. Exported functions are the
+// package's API and stay opaque call sites.
+func c17Inlinable(root, callee *ssa.Function) bool {
+	if callee == nil || len(callee.Blocks) == 0 {
+		return false
+	}
+	top, rtop := TopFunc(callee), TopFunc(root)
+	if top.Pkg == nil || top.Pkg != rtop.Pkg {
+		return false
+	}
+	if callee.Parent() != nil {
+		return true
+	}
+	obj := callee.Object()
+	return obj != nil && !obj.Exported()
+}
+
+func c17EffectiveBody(fn *ssa.Function, opaque func(*ssa.Function) bool) *c17Body {
+	b := &c17Body{}
+	var build func(f *ssa.Function, call CallSite, parent *c17GFrame, depth int) *c17GFrame
+	build = func(f *ssa.Function, call CallSite, parent *c17GFrame, depth int) *c17GFrame {
+		fr := &c17GFrame{fn: f, call: call, parent: parent, depth: depth, kids: map[ssa.CallInstruction]*c17GFrame{}}
+		b.frames = append(b.frames, fr)
+		if depth >= 5 {
+			return fr
+		}
+		for _, c := range CallsIn(f, false) {
+			if c.IsGo() || c.IsDefer() || len(b.frames) > 96 {
+				continue
+			}
+			callee := c.Callee()
+			if !c17Inlinable(fn, callee) || (opaque != nil && opaque(callee)) {
+				continue
+			}
+			rec := false
+			for x := fr; x != nil; x = x.parent {
+				if x.fn == callee {
+					rec = true
+				}
+			}
+			if rec {
+				continue
+			}
+			fr.kids[c.Instr] = build(callee, c, fr, depth+1)
+		}
+		return fr
+	}
+	b.root = build(fn, CallSite{}, nil, 0)
+	return b
+}
+
+// arg returns the caller-side argument bound to parameter prm of fr.fn.
+func (fr *c17GFrame) arg(prm *ssa.Parameter) ssa.Value {
+	if fr == nil || fr.parent == nil || prm.Parent() != fr.fn {
+		return nil
+	}
+	args := fr.call.Common().Args
+	for i, p := range fr.fn.Params {
+		if p == prm && i < len(args) {
+			return args[i]
+		}
+	}
+	return nil
+}
+
+// frameFor returns fr or its nearest ancestor whose function is f.
+func (fr *c17GFrame) frameFor(f *ssa.Function) *c17GFrame {
+	for x := fr; x != nil; x = x.parent {
+		if x.fn == f {
+			return x
+		}
+	}
+	return nil
+}
+
+func (fr *c17GFrame) isRoot() bool { return fr != nil && fr.parent == nil }
+
+// chainName renders the call chain of a helper frame for diagnostics.
+func (fr *c17GFrame) chainName() string {
+	if fr == nil {
+		return "?"
+	}
+	return FuncKey(fr.fn)
+}
+
+// c17Adjust moves fr to the ancestor frame that owns v when originValue /
+// captured variables led into a lexically enclosing function.
+func c17Adjust(v ssa.Value, fr *c17GFrame) *c17GFrame {
+	if fr == nil {
+		return nil
+	}
+	var f *ssa.Function
+	switch x := v.(type) {
+	case *ssa.Parameter:
+		f = x.Parent()
+	case *ssa.FreeVar:
+		f = x.Parent()
+	case ssa.Instruction:
+		f = x.Parent()
+	}
+	if f != nil && f != fr.fn {
+		if a := fr.frameFor(f); a != nil {
+			return a
+		}
+	}
+	return fr
+}
+
+// c17Resolve strips value-preserving wrappers and maps parameters of helper
+// frames to the caller's arguments, as far up as possible.
+func c17Resolve(v ssa.Value, fr *c17GFrame) (ssa.Value, *c17GFrame) {
+	for i := 0; i < 16 && v != nil; i++ {
+		v = originValue(v)
+		fr = c17Adjust(v, fr)
+		prm, ok := v.(*ssa.Parameter)
+		if !ok {
+			return v, fr
+		}
+		a := fr.arg(prm)
+		if a == nil {
+			return v, fr
+		}
+		v, fr = a, fr.parent
+	}
+	return v, fr
+}
+
+// c17PathUp translates an access path of frame fr into the root function by
+// substituting parameters with the access paths of the caller's arguments.
+func c17PathUp(p string, fr *c17GFrame) string {
+	for fr != nil && fr.parent != nil {
+		pre := ""
+		for len(p) > 0 && (p[0] == '&' || p[0] == '*') {
+			pre += p[:1]
+			p = p[1:]
+		}
+		end := strings.IndexAny(p, ".[")
+		if end < 0 {
+			end = len(p)
+		}
+		var prm *ssa.Parameter
+		for _, q := range fr.fn.Params {
+			if q.Name() == p[:end] {
+				prm = q
+			}
+		}
+		if prm == nil {
+			return pre + p
+		}
+		a := fr.arg(prm)
+		if a == nil {
+			return "?untranslatable"
+		}
+		ap := AccessPath(a)
+		if ap == "" || strings.ContainsAny(ap[:1], "?&*") {
+			return "?untranslatable"
+		}
+		p = pre + ap + p[end:]
+		fr = fr.parent
+	}
+	return p
+}
+
+// depends is c17DependsOn over the effective body: parameters continue in the
+// caller's argument, results of an inlined call in the helper's returned values.
+func (b *c17Body) depends(v ssa.Value, fr *c17GFrame, target func(ssa.Value, *c17GFrame) bool) bool {
+	seen := map[c17FV]bool{}
+	var walk func(v ssa.Value, fr *c17GFrame, d int) bool
+	walk = func(v ssa.Value, fr *c17GFrame, d int) bool {
+		if v == nil || fr == nil || d > 160 {
+			return false
+		}
+		fr = c17Adjust(v, fr)
+		k := c17FV{v, fr}
+		if seen[k] {
+			return false
+		}
+		seen[k] = true
+		if target(v, fr) {
+			return true
+		}
+		switch x := v.(type) {
+		case *ssa.Parameter:
+			if a := fr.arg(x); a != nil {
+				return walk(a, fr.parent, d+1)
+			}
+			return false
+		case *ssa.UnOp:
+			if x.Op == token.MUL {
+				if cell, ok := varOf(x.X); ok {
+					if al, isAlloc := cell.(*ssa.Alloc); isAlloc {
+						if walk(al, fr, d+1) {
+							return true
+						}
+					}
+				}
+			}
+		case *ssa.Alloc:
+			for _, st := range storesTo(x) {
+				if walk(st.Val, fr, d+1) {
+					return true
+				}
+			}
+			if refs := x.Referrers(); refs != nil {
+				for _, ref := range *refs {
+					var sub ssa.Value
+					switch a := ref.(type) {
+					case *ssa.FieldAddr:
+						sub = a
+					case *ssa.IndexAddr:
+						sub = a
+					}
+					if sub == nil || sub.Referrers() == nil {
+						continue
+					}
+					for _, rr := range *sub.Referrers() {
+						if st, ok := rr.(*ssa.Store); ok && st.Addr == sub {
+							if walk(st.Val, fr, d+1) {
+								return true
+							}
+						}
+					}
+				}
+			}
+		case *ssa.FreeVar:
+			if bv := bindingOf(x); bv != nil && walk(bv, fr, d+1) {
+				return true
+			}
+		case *ssa.Extract:
+			if c, ok := x.Tuple.(*ssa.Call); ok {
+				if kid := fr.kids[c]; kid != nil {
+					for _, ri := range Returns(kid.fn) {
+						if x.Index < len(ri.Results) && walk(ri.Results[x.Index], kid, d+1) {
+							return true
+						}
+					}
+					return false
+				}
+			}
+		case *ssa.Call:
+			if kid := fr.kids[x]; kid != nil {
+				for _, ri := range Returns(kid.fn) {
+					for _, rv := range ri.Results {
+						if walk(rv, kid, d+1) {
+							return true
+						}
+					}
+				}
+				return false
+			}
+		}
+		if in, ok := v.(ssa.Instruction); ok {
+			for _, op := range in.Operands(nil) {
+				if *op != nil && walk(*op, fr, d+1) {
+					return true
+				}
+			}
+		}
+		return false
+	}
+	return walk(v, fr, 0)
+}
+
+// leaves flattens phis across the effective body: a parameter of a helper is
+// replaced by the caller's argument, the result of an inlined call by the
+// helper's returned values.
+func (b *c17Body) leaves(v ssa.Value, fr *c17GFrame) []c17FV {
+	var out []c17FV
+	seen := map[c17FV]bool{}
+	var walk func(v ssa.Value, fr *c17GFrame, d int)
+	walk = func(v ssa.Value, fr *c17GFrame, d int) {
+		if v == nil || fr == nil {
+			return
+		}
+		fr = c17Adjust(v, fr)
+		k := c17FV{v, fr}
+		if seen[k] {
+			return
+		}
+		seen[k] = true
+		if d > 40 {
+			out = append(out, k)
+			return
+		}
+		switch x := v.(type) {
+		case *ssa.Phi:
+			for _, e := range x.Edges {
+				walk(e, fr, d+1)
+			}
+			return
+		case *ssa.ChangeType:
+			walk(x.X, fr, d+1)
+			return
+		case *ssa.ChangeInterface:
+			walk(x.X, fr, d+1)
+			return
+		case *ssa.Parameter:
+			if a := fr.arg(x); a != nil {
+				walk(a, fr.parent, d+1)
+				return
+			}
+		case *ssa.UnOp:
+			if x.Op == token.MUL {
+				if rv := resolveLoad(x); rv != nil {
+					walk(rv, fr, d+1)
+					return
+				}
+			}
+		case *ssa.Extract:
+			if c, ok := x.Tuple.(*ssa.Call); ok {
+				if kid := fr.kids[c]; kid != nil {
+					for _, ri := range Returns(kid.fn) {
+						if x.Index < len(ri.Results) {
+							walk(ri.Results[x.Index], kid, d+1)
+						}
+					}
+					return
+				}
+			}
+		case *ssa.Call:
+			if kid := fr.kids[x]; kid != nil && x.Call.Signature().Results().Len() == 1 {
+				for _, ri := range Returns(kid.fn) {
+					if len(ri.Results) == 1 {
+						walk(ri.Results[0], kid, d+1)
+					}
+				}
+				return
+			}
+		}
+		out = append(out, k)
+	}
+	walk(v, fr, 0)
+	return out
+}
+
+// sites lists the call sites of the effective body that satisfy pred.
+func (b *c17Body) sites(pred func(fr *c17GFrame, c CallSite) bool) []c17Site {
+	var out []c17Site
+	for _, fr := range b.frames {
+		for _, c := range CallsIn(fr.fn, false) {
+			if pred(fr, c) {
+				out = append(out, c17Site{fr, c})
+			}
+		}
+	}
+	return out
+}
+
+// rootBlock is the block of the root function in which the site executes:
+// its own block, or the block of the outermost call leading to its helper.
+func (s c17Site) rootBlock() *ssa.BasicBlock {
+	blk, fr := s.c.Block(), s.fr
+	for fr != nil && fr.parent != nil {
+		blk, fr = fr.call.Block(), fr.parent
+	}
+	return blk
+}
+
+// c17PredM recognises the evaluations of one validation predicate: cond
+// matches a boolean value (a NOT-stripped branch condition or a returned
+// value) and says which truth value is the good one; errv matches the
+// predicate's own error value (good = nil).
+type c17PredM struct {
+	cond func(fr *c17GFrame, cond ssa.Value) (matched, goodWhenTrue bool)
+	errv func(fr *c17GFrame, v ssa.Value) bool
+}
+
+func c17CombineM(ms []c17PredM) c17PredM {
+	return c17PredM{
+		cond: func(fr *c17GFrame, cond ssa.Value) (bool, bool) {
+			for _, m := range ms {
+				if m.cond != nil {
+					if ok, g := m.cond(fr, cond); ok {
+						return true, g
+					}
+				}
+			}
+			return false, false
+		},
+		errv: func(fr *c17GFrame, v ssa.Value) bool {
+			for _, m := range ms {
+				if m.errv != nil && m.errv(fr, v) {
+					return true
+				}
+			}
+			return false
+		},
+	}
+}
+
+// c17Res: where a predicate decides control flow. rootBrs are the branches of
+// the root function: direct tests of the predicate and tests of the verdict of
+// helpers that were proven to report it faithfully.
+type c17Res struct {
+	rootBrs []c17Branch
+	byFrame map[*c17GFrame][]c17Branch
+	notes   []string
+}
+
+type c17RetLeaf struct {
+	ret  *ssa.Return
+	val  ssa.Value
+	from *ssa.BasicBlock // predecessor block for an operand of a phi in the return block; nil otherwise
+}
+
+func c17RetLeaves(fn *ssa.Function, j int) []c17RetLeaf {
+	var out []c17RetLeaf
+	for _, ri := range Returns(fn) {
+		if j >= len(ri.Results) {
+			continue
+		}
+		v := ri.Results[j]
+		if ph, ok := v.(*ssa.Phi); ok && ph.Block() == ri.Ret.Block() {
+			for i, e := range ph.Edges {
+				out = append(out, c17RetLeaf{ri.Ret, e, ph.Block().Preds[i]})
+			}
+			continue
+		}
+		out = append(out, c17RetLeaf{ri.Ret, v, nil})
+	}
+	return out
+}
+
+// resolve finds the branches deciding predicate pm in every frame of the
+// body, bottom-up. A helper frame that tests the predicate (or returns its
+// value) contributes to its caller when one of its results reports the
+// verdict faithfully:
+//   - from every bad edge of the helper's own tests only returns carrying the
+//     bad verdict are reachable (bad => reported bad), and
+//   - (checkLeaks) under scenario sc no return carrying a good or unknown
+//     verdict is reachable from the helper's entry without crossing a good
+//     edge (reported good => the test passed).
+//
+// The caller's tests of that result are then tests of the predicate.
+func (b *c17Body) resolve(pm c17PredM, sc *c17Scenario, checkLeaks bool) *c17Res {
+	res := &c17Res{byFrame: map[*c17GFrame][]c17Branch{}}
+	extra := map[*c17GFrame][]c17PredM{}
+	for i := len(b.frames) - 1; i >= 0; i-- {
+		fr := b.frames[i]
+		m := c17CombineM(append([]c17PredM{pm}, extra[fr]...))
+		brs := c17Branches(fr.fn, func(cond ssa.Value) (bool, bool) { return m.cond(fr, cond) })
+		res.byFrame[fr] = brs
+		if fr.parent == nil {
+			res.rootBrs = brs
+			continue
+		}
+		d, note := b.lift(fr, m, brs, sc, checkLeaks)
+		if note != "" {
+			res.notes = append(res.notes, note)
+		}
+		if d != nil {
+			extra[fr.parent] = append(extra[fr.parent], *d)
+		}
+	}
+	return res
+}
+
+func (b *c17Body) lift(fr *c17GFrame, m c17PredM, brs []c17Branch, sc *c17Scenario, checkLeaks bool) (*c17PredM, string) {
+	fn := fr.fn
+	call := fr.call.Value()
+	if call == nil {
+		return nil, ""
+	}
+	results := fn.Signature.Results()
+	type cand struct {
+		j     int
+		isErr bool
+		good  bool
+	}
+	var cands []cand
+	if j := ErrResultIndex(fn); j >= 0 {
+		cands = append(cands, cand{j, true, true})
+	}
+	for j := 0; j < results.Len(); j++ {
+		if c17IsBool(results.At(j).Type()) {
+			cands = append(cands, cand{j, false, true}, cand{j, false, false})
+		}
+	}
+	badReach := map[*ssa.BasicBlock]bool{}
+	for _, br := range brs {
+		for x := range BlocksFrom(br.bad()) {
+			badReach[x] = true
+		}
+	}
+	kind := func(c cand, l c17RetLeaf) byte {
+		if c.isErr {
+			if IsNilConst(l.val) {
+				return 'G'
+			}
+			if m.errv != nil && m.errv(fr, l.val) {
+				return 'I'
+			}
+			if _, isMI := l.val.(*ssa.MakeInterface); isMI || isNonNilErrorExpr(l.val) {
+				return 'B'
+			}
+			var facts []CondFact
+			if l.from != nil {
+				facts = c17EdgeFacts(l.from, l.ret.Block())
+			} else {
+				facts = FactsAt(l.ret.Block())
+			}
+			for _, f := range facts {
+				if k, isNil := condSaysNil(f.Cond, f.Val, l.val); k && !isNil {
+					return 'B'
+				}
+			}
+			return 'X'
+		}
+		if k, ok := l.val.(*ssa.Const); ok && k.Value != nil && k.Value.Kind() == constant.Bool {
+			if constant.BoolVal(k.Value) == c.good {
+				return 'G'
+			}
+			return 'B'
+		}
+		cond, pol := c17StripNot(l.val, true)
+		if ok, gwt := m.cond(fr, cond); ok {
+			if gwt == (pol == c.good) {
+				return 'I'
+			}
+			return 'X'
+		}
+		return 'X'
+	}
+	fromBad := func(l c17RetLeaf) bool {
+		rb := l.ret.Block()
+		if l.from == nil {
+			return badReach[rb]
+		}
+		if badReach[l.from] {
+			return true
+		}
+		for _, br := range brs {
+			if br.If.Block() == l.from && br.bad() == rb {
+				return true
+			}
+		}
+		return false
+	}
+	var seen map[*ssa.BasicBlock]bool
+	var edges map[[2]*ssa.BasicBlock]bool
+	if checkLeaks {
+		cut := func(from *ssa.BasicBlock, i int) bool {
+			for _, br := range brs {
+				if br.If.Block() == from && br.GoodIdx == i {
+					return true
+				}
+			}
+			return false
+		}
+		seen, edges = c17ReachE(fn.Blocks[0], sc.in(fr), cut, nil)
+	}
+	why := ""
+	for _, c := range cands {
+		ls := c17RetLeaves(fn, c.j)
+		okBad, canGood, ident := true, false, false
+		for _, l := range ls {
+			k := kind(c, l)
+			if fromBad(l) && k != 'B' {
+				okBad = false
+			}
+			if k == 'G' || k == 'I' {
+				canGood = true
+			}
+			if k == 'I' {
+				ident = true
+			}
+		}
+		if !okBad || !canGood || (len(brs) == 0 && !ident) {
+			continue
+		}
+		if checkLeaks {
+			leak := ""
+			for _, l := range ls {
+				k := kind(c, l)
+				if k != 'G' && k != 'X' {
+					continue
+				}
+				reach := seen[l.ret.Block()]
+				if l.from != nil {
+					reach = edges[[2]*ssa.BasicBlock{l.from, l.ret.Block()}]
+				}
+				if reach {
+					leak = fmt.Sprintf("helper %s can report a good verdict (return in block %d) without the check having passed", fr.chainName(), l.ret.Block().Index)
+					break
+				}
+			}
+			if leak != "" {
+				why = leak
+				continue
+			}
+		}
+		parent := fr.parent
+		if c.isErr {
+			ev, has, discarded := ErrValue(call)
+			if !has || discarded || ev == nil {
+				return nil, fmt.Sprintf("the error result of helper %s is discarded by its caller", fr.chainName())
+			}
+			return &c17PredM{
+				cond: func(f *c17GFrame, cond ssa.Value) (bool, bool) {
+					if f != parent {
+						return false, false
+					}
+					if k, isNil := condSaysNil(cond, true, ev); k {
+						return true, isNil
+					}
+					return false, false
+				},
+				errv: func(f *c17GFrame, v ssa.Value) bool { return f == parent && sameOrigin(v, ev) },
+			}, ""
+		}
+		rv := ResultValue(call, c.j)
+		if rv == nil {
+			return nil, fmt.Sprintf("the verdict of helper %s is discarded by its caller", fr.chainName())
+		}
+		good := c.good
+		return &c17PredM{
+			cond: func(f *c17GFrame, cond ssa.Value) (bool, bool) {
+				if f != parent {
+					return false, false
+				}
+				if cond == rv || originValue(cond) == rv {
+					return true, good
+				}
+				return false, false
+			},
+		}, ""
+	}
+	if why == "" && (len(brs) > 0) {
+		why = fmt.Sprintf("helper %s tests the predicate but none of its results reports the verdict faithfully (a bad outcome can end in a return that does not say so)", fr.chainName())
+	}
+	return nil, why
+}
+
+// under reports whether a site (block blk of frame fr) executes only after a
+// good edge of one of the predicate's branches, in its own frame or at one of
+// the calls leading to it.
+func (res *c17Res) under(fr *c17GFrame, blk *ssa.BasicBlock) bool {
+	for fr != nil {
+		for _, f := range FactsAt(blk) {
+			for _, br := range res.byFrame[fr] {
+				if f.At == br.If.Block() && f.Val == (br.GoodIdx == 0) {
+					return true
+				}
+			}
+		}
+		if fr.parent == nil {
+			break
+		}
+		blk, fr = fr.call.Block(), fr.parent
+	}
+	return false
 }
 
 // ---------------------------------------------------------------------------
@@ -497,46 +1221,67 @@ func c17FindLoop(b *ssa.BasicBlock) *c17Loop {
 }
 
 type c17Gate struct {
-	p   *Program
-	r   *Reporter
-	fn  *ssa.Function
-	key string
-	rw  *ssa.Parameter
-	req *ssa.Parameter
-	ref *ssa.Parameter
-	lp  *c17Loop
+	p    *Program
+	r    *Reporter
+	fn   *ssa.Function
+	key  string
+	rw   *ssa.Parameter
+	req  *ssa.Parameter
+	ref  *ssa.Parameter
+	lp   *c17Loop
+	body *c17Body
 
-	emitters []CallSite
+	emitters []c17Site
 	emitBlk  map[*ssa.BasicBlock]bool
 }
 
-func (g *c17Gate) isCur(v ssa.Value) bool {
-	ld, ok := originValue(v).(*ssa.UnOp)
-	if !ok || ld.Op != token.MUL {
-		return false
-	}
-	ia, ok := ld.X.(*ssa.IndexAddr)
-	return ok && sameOrigin(ia.X, g.lp.Chain) && ia.Index == g.lp.Idx
+// isRoot reports whether v (of frame fr) denotes root-function value rv.
+func (g *c17Gate) isRootVal(v ssa.Value, fr *c17GFrame, rv ssa.Value) bool {
+	r, f := c17Resolve(v, fr)
+	return f != nil && f.isRoot() && sameOrigin(r, rv)
 }
 
-// isElem reports whether v is a load of chain[k] for constant k or of chain[idx+1] (k = -1).
-func (g *c17Gate) isElemAt(v ssa.Value, constIdx int64, next bool) bool {
-	ld, ok := originValue(v).(*ssa.UnOp)
-	if !ok || ld.Op != token.MUL {
-		return false
+// elemIndex: v is a load of chain[index]; returns the index expression and its frame.
+func (g *c17Gate) elemIndex(v ssa.Value, fr *c17GFrame) (ssa.Value, *c17GFrame, bool) {
+	r, f := c17Resolve(v, fr)
+	ld, ok := r.(*ssa.UnOp)
+	if !ok || ld.Op != token.MUL || f == nil {
+		return nil, nil, false
 	}
 	ia, ok := ld.X.(*ssa.IndexAddr)
-	if !ok || !sameOrigin(ia.X, g.lp.Chain) {
+	if !ok || !g.isRootVal(ia.X, f, g.lp.Chain) {
+		return nil, nil, false
+	}
+	return ia.Index, f, true
+}
+
+func (g *c17Gate) isIdx(v ssa.Value, fr *c17GFrame) bool {
+	r, f := c17Resolve(v, fr)
+	return f != nil && f.isRoot() && r == g.lp.Idx
+}
+
+// isCur: v is the current chain element chain[idx].
+func (g *c17Gate) isCur(v ssa.Value, fr *c17GFrame) bool {
+	idx, f, ok := g.elemIndex(v, fr)
+	return ok && g.isIdx(idx, f)
+}
+
+// isElemAt reports whether v is a load of chain[k] for constant k (next=false)
+// or of chain[idx+1] (next=true).
+func (g *c17Gate) isElemAt(v ssa.Value, fr *c17GFrame, constIdx int64, next bool) bool {
+	idx, f, ok := g.elemIndex(v, fr)
+	if !ok {
 		return false
 	}
-	if n, isC := ConstInt(ia.Index); isC {
+	r, rf := c17Resolve(idx, f)
+	if n, isC := ConstInt(r); isC {
 		return !next && n == constIdx
 	}
-	if bo, isB := ia.Index.(*ssa.BinOp); isB && bo.Op == token.ADD {
-		if n, isC := ConstInt(bo.Y); isC && n == 1 && bo.X == g.lp.Idx {
+	if bo, isB := r.(*ssa.BinOp); isB && bo.Op == token.ADD {
+		if n, isC := ConstInt(bo.Y); isC && n == 1 && g.isIdx(bo.X, rf) {
 			return next
 		}
-		if n, isC := ConstInt(bo.X); isC && n == 1 && bo.Y == g.lp.Idx {
+		if n, isC := ConstInt(bo.X); isC && n == 1 && g.isIdx(bo.Y, rf) {
 			return next
 		}
 	}
@@ -544,7 +1289,7 @@ func (g *c17Gate) isElemAt(v ssa.Value, constIdx int64, next bool) bool {
 }
 
 func (g *c17Gate) scenario(name string, idx, n int64, nonNil string) *c17Scenario {
-	return &c17Scenario{Name: name, Idx: g.lp.Idx, IdxVal: idx, Chain: g.lp.Chain, LenVal: n, NonNil: nonNil}
+	return &c17Scenario{Name: name, Idx: g.lp.Idx, IdxVal: idx, Chain: g.lp.Chain, LenVal: n, NonNil: nonNil, fr: g.body.root}
 }
 
 // badEdgeReaches returns the emitter blocks reachable from the bad edge of br.
@@ -576,7 +1321,7 @@ func (g *c17Gate) mustCross(sc *c17Scenario, brs []c17Branch) (bool, string) {
 	for b := range g.emitBlk {
 		stop[b] = true
 	}
-	reach := c17Reach(g.lp.Body, sc, cut, stop)
+	reach := c17Reach(g.lp.Body, sc.in(g.body.root), cut, stop)
 	var hit []*ssa.BasicBlock
 	for b := range stop {
 		if reach[b] {
@@ -593,7 +1338,7 @@ func (g *c17Gate) mustCross(sc *c17Scenario, brs []c17Branch) (bool, string) {
 // pred reports one predicate obligation.
 type c17Pred struct {
 	name      string
-	brs       []c17Branch
+	pm        *c17PredM      // recognises the predicate's evaluations in any frame of the effective body
 	valueErr  string         // non-empty: predicate evaluated on the wrong values
 	scenarios []*c17Scenario // must-cross scenarios (nil = bad-edge rule only)
 	site      token.Pos
@@ -617,11 +1362,19 @@ func (g *c17Gate) report(pd *c17Pred) {
 		g.r.Violation("H-gate", construct, site, pd.what+": evaluated on the wrong value: "+pd.valueErr)
 		return
 	}
-	if len(pd.brs) == 0 {
-		g.r.Violation("H-gate", construct, site, pd.what+": the predicate's result never decides a branch (computed but not checked)")
+	var all *c17Res
+	if pd.pm != nil {
+		all = g.body.resolve(*pd.pm, nil, false)
+	}
+	if all == nil || len(all.rootBrs) == 0 {
+		d := pd.what + ": the predicate's result never decides a branch of the handler (computed but not checked)"
+		if all != nil && len(all.notes) > 0 {
+			d += "; " + strings.Join(c17Uniq(all.notes), "; ")
+		}
+		g.r.Violation("H-gate", construct, site, d)
 		return
 	}
-	for _, br := range pd.brs {
+	for _, br := range all.rootBrs {
 		if hit := g.badEdgeReaches(br); len(hit) > 0 {
 			g.r.Violation("H-gate", construct, g.p.Pos(br.If.Cond.Pos()), fmt.Sprintf("%s: from the bad edge of the check in block %d a content emitter is still reachable (emitter block %s)", pd.what, br.If.Block().Index, c17BlockNames(hit)))
 			return
@@ -629,18 +1382,66 @@ func (g *c17Gate) report(pd *c17Pred) {
 	}
 	var done []string
 	for _, sc := range pd.scenarios {
-		ok, why := g.mustCross(sc, pd.brs)
+		res := g.body.resolve(*pd.pm, sc, true)
+		ok, why := g.mustCross(sc, res.rootBrs)
 		if !ok {
+			if len(res.notes) > 0 {
+				why += "; " + strings.Join(c17Uniq(res.notes), "; ")
+			}
 			g.r.Violation("H-gate", construct, site, pd.what+": "+why)
 			return
 		}
 		done = append(done, sc.Name)
 	}
-	detail := fmt.Sprintf("%s: %d check(s); no emitter reachable from a bad edge", pd.what, len(pd.brs))
+	detail := fmt.Sprintf("%s: %d check(s) in the handler", pd.what, len(all.rootBrs))
+	nh := 0
+	for fr, brs := range all.byFrame {
+		if !fr.isRoot() && len(brs) > 0 {
+			nh++
+		}
+	}
+	if nh > 0 {
+		detail += fmt.Sprintf(" (verdict reported through %d helper frame(s))", nh)
+	}
+	detail += "; no emitter reachable from a bad edge"
 	if len(done) > 0 {
 		detail += "; good edge crossed on every iteration path in scenarios " + strings.Join(done, ",")
 	}
 	g.r.OK("H-gate", construct, site, detail)
+}
+
+// c17BoolCallM: the predicate is result idx of the call at site s.
+func c17BoolCallM(s c17Site, idx int, goodVal bool) *c17PredM {
+	rv := ResultValue(s.c.Value(), idx)
+	if rv == nil {
+		return nil
+	}
+	return &c17PredM{cond: func(fr *c17GFrame, cond ssa.Value) (bool, bool) {
+		if fr == s.fr && (cond == rv || originValue(cond) == rv) {
+			return true, goodVal
+		}
+		return false, false
+	}}
+}
+
+// c17ErrM: the predicate is "the call at site s returned a nil error".
+func c17ErrM(s c17Site) *c17PredM {
+	ev, has, discarded := ErrValue(s.c.Value())
+	if !has || discarded || ev == nil {
+		return nil
+	}
+	return &c17PredM{
+		cond: func(fr *c17GFrame, cond ssa.Value) (bool, bool) {
+			if fr != s.fr {
+				return false, false
+			}
+			if k, isNil := condSaysNil(cond, true, ev); k {
+				return true, isNil
+			}
+			return false, false
+		},
+		errv: func(fr *c17GFrame, v ssa.Value) bool { return fr == s.fr && sameOrigin(v, ev) },
+	}
 }
 
 func c17RuleGate(p *Program, r *Reporter, a *c17Auth) {
@@ -655,51 +1456,74 @@ func c17RuleGate(p *Program, r *Reporter, a *c17Auth) {
 	}
 	fetcher := p.Iface("pkg/blob", "Fetcher")
 	linkFn := p.Func("pkg/server", "", "bytesHaveSchemaLink")
-	r.Analysed("functions", 1+len(fn.AnonFuncs))
+	// the effective body: the gate plus the unexported pkg/server helpers and
+	// literals it calls (the link check is a predicate of its own: H-links)
+	g.body = c17EffectiveBody(fn, func(f *ssa.Function) bool { return f == linkFn })
+	body, root := g.body, g.body.root
+	r.Analysed("functions", len(body.frames)+len(fn.AnonFuncs))
 	r.Floor("H-gate", 17)
 
-	// --- emitters: every call that gets the ResponseWriter, except rw.Header()
-	nestedEmit := false
-	for _, c := range c17UsesOf(fn, g.rw) {
-		if c.Common().IsInvoke() && c.MethodName() == "Header" {
-			continue
-		}
-		g.emitters = append(g.emitters, c)
-		if c.Fn != fn {
-			nestedEmit = true
-			continue
-		}
-		g.emitBlk[c.Block()] = true
+	// --- emitters: every call of the effective body that gets the ResponseWriter, except rw.Header()
+	frameFns := map[*ssa.Function]bool{}
+	for _, fr := range body.frames {
+		frameFns[fr.fn] = true
 	}
-	r.Analysed("call_sites", len(CallsIn(fn, true)))
+	nestedEmit := false
+	nCalls := 0
+	for _, fr := range body.frames {
+		for _, c := range CallsIn(fr.fn, true) {
+			if c.Fn != fr.fn && frameFns[c.Fn] {
+				continue // a called literal: analysed as a frame of its own
+			}
+			nCalls++
+			gets := false
+			for _, arg := range c.Args() {
+				if g.isRootVal(arg, fr, g.rw) {
+					gets = true
+				}
+			}
+			if !gets || (c.Common().IsInvoke() && c.MethodName() == "Header") {
+				continue
+			}
+			if c.Fn != fr.fn {
+				nestedEmit = true
+				g.emitters = append(g.emitters, c17Site{fr, c})
+				continue
+			}
+			if fr.kids[c.Instr] != nil {
+				continue // hands rw to a helper of the effective body: its calls are the emitters
+			}
+			s := c17Site{fr, c}
+			g.emitters = append(g.emitters, s)
+			g.emitBlk[s.rootBlock()] = true
+		}
+	}
+	r.Analysed("call_sites", nCalls)
 	if len(g.emitters) == 0 {
 		r.Violation("H-gate", g.key+"#emitters", site, "no call receives the ResponseWriter: the handler no longer serves anything (anchor moved?)")
 		return
 	}
 	if nestedEmit {
-		r.Undecided("H-gate", g.key+"#emitters", site, "the ResponseWriter is used inside a nested function literal; dominance by the chain loop cannot be decided there")
+		r.Undecided("H-gate", g.key+"#emitters", site, "the ResponseWriter is used inside a function literal that is not called directly (deferred, spawned or stored); dominance by the chain loop cannot be decided there")
 		return
 	}
 
 	// --- the chain loop, found from the Fetch calls
-	var fetches []CallSite
-	for _, c := range CallsIn(fn, false) {
-		if c.Common().IsInvoke() && c.IsMethod("Fetch", fetcher) && c.Value() != nil {
-			fetches = append(fetches, c)
-		}
-	}
+	fetches := body.sites(func(fr *c17GFrame, c CallSite) bool {
+		return c.Common().IsInvoke() && c.IsMethod("Fetch", fetcher) && c.Value() != nil
+	})
 	if len(fetches) == 0 {
 		r.Violation("H-gate", g.key+"#chain-loop", site, "no blob.Fetcher.Fetch call in the handler: the chain is not validated against stored blobs")
 		return
 	}
 	for _, f := range fetches {
-		l := c17FindLoop(f.Block())
+		l := c17FindLoop(f.rootBlock())
 		if l == nil {
-			r.Undecided("H-gate", g.key+"#chain-loop", p.Pos(f.Pos()), "a Fetch call is not inside a counted loop `i < len(chain)`; the per-hop analysis cannot follow this shape")
+			r.Undecided("H-gate", g.key+"#chain-loop", p.Pos(f.c.Pos()), "a Fetch call is not inside a counted loop `i < len(chain)` of the handler; the per-hop analysis cannot follow this shape")
 			return
 		}
 		if g.lp != nil && g.lp.Header != l.Header {
-			r.Undecided("H-gate", g.key+"#chain-loop", p.Pos(f.Pos()), "Fetch calls sit in different loops; the per-hop analysis expects one chain loop")
+			r.Undecided("H-gate", g.key+"#chain-loop", p.Pos(f.c.Pos()), "Fetch calls sit in different loops; the per-hop analysis expects one chain loop")
 			return
 		}
 		g.lp = l
@@ -707,7 +1531,7 @@ func c17RuleGate(p *Program, r *Reporter, a *c17Auth) {
 	lp := g.lp
 	{
 		var why []string
-		if !c17DependsOnValue(lp.Chain, g.ref) {
+		if !body.depends(lp.Chain, root, func(x ssa.Value, f *c17GFrame) bool { return f.isRoot() && x == ssa.Value(g.ref) }) {
 			why = append(why, "the iterated chain does not contain the requested blobRef parameter")
 		}
 		for _, pr := range lp.Done.Preds {
@@ -725,27 +1549,20 @@ func c17RuleGate(p *Program, r *Reporter, a *c17Auth) {
 		}
 	}
 
-	// --- predicates
-	isIdx := func(c CallSite, recv, name string) bool { return c.IsStatic("perkeep.org/pkg/schema", recv, name) }
-	var asShare, isExpired, isTransitive, isDeleted, linkCalls []CallSite
-	for _, c := range CallsIn(fn, false) {
-		switch {
-		case isIdx(c, "Blob", "AsShare"):
-			asShare = append(asShare, c)
-		case isIdx(c, "Share", "IsExpired"):
-			isExpired = append(isExpired, c)
-		case isIdx(c, "Share", "IsTransitive"):
-			isTransitive = append(isTransitive, c)
-		case c.IsStatic("perkeep.org/pkg/index", "Index", "IsDeleted"):
-			isDeleted = append(isDeleted, c)
-		case c.Callee() == linkFn:
-			linkCalls = append(linkCalls, c)
-		}
+	// --- predicates (sites anywhere in the effective body)
+	static := func(pkg, recv, name string) []c17Site {
+		return body.sites(func(fr *c17GFrame, c CallSite) bool { return c.Value() != nil && c.IsStatic(pkg, recv, name) })
 	}
+	asShare := static("perkeep.org/pkg/schema", "Blob", "AsShare")
+	isExpired := static("perkeep.org/pkg/schema", "Share", "IsExpired")
+	isTransitive := static("perkeep.org/pkg/schema", "Share", "IsTransitive")
+	isDeleted := static("perkeep.org/pkg/index", "Index", "IsDeleted")
+	linkCalls := body.sites(func(fr *c17GFrame, c CallSite) bool { return c.Value() != nil && c.Callee() == linkFn })
+
 	// scenarios
 	nonNil := ""
 	if len(isDeleted) > 0 {
-		nonNil = AccessPath(isDeleted[0].Args()[0])
+		nonNil = c17PathUp(AccessPath(isDeleted[0].c.Args()[0]), isDeleted[0].fr)
 	}
 	first1 := g.scenario("first-of-1", 0, 1, nonNil)
 	first2 := g.scenario("first-of-2", 0, 2, nonNil)
@@ -755,46 +1572,24 @@ func c17RuleGate(p *Program, r *Reporter, a *c17Auth) {
 	midN := g.scenario("middle-of-many", 500, 1000, nonNil)
 	firstAll := []*c17Scenario{first1, first2, first3, firstN}
 
-	boolCallBranches := func(call CallSite, resultIdx int, goodVal bool) []c17Branch {
-		rv := ResultValue(call.Value(), resultIdx)
-		if rv == nil {
-			return nil
-		}
-		return c17Branches(fn, func(cond ssa.Value) (bool, bool) {
-			if originValue(cond) == rv || cond == rv {
-				return true, goodVal
-			}
-			return false, false
-		})
-	}
-	errBranches := func(call CallSite) []c17Branch {
-		ev, has, discarded := ErrValue(call.Value())
-		if !has || discarded {
-			return nil
-		}
-		return c17Branches(fn, func(cond ssa.Value) (bool, bool) {
-			if k, isNil := condSaysNil(cond, true, ev); k {
-				return true, isNil // good when err is nil
-			}
-			return false, false
-		})
+	isVal := func(s c17Site) func(ssa.Value, *c17GFrame) bool {
+		return func(x ssa.Value, f *c17GFrame) bool { return f == s.fr && x == ssa.Value(s.c.Value()) }
 	}
 
 	// the share value: AsShare on a blob parsed from the bytes fetched for the current element
-	var shareCall CallSite
-	var shareFetch CallSite
+	var shareCall, shareFetch c17Site
 	haveShare := false
 	if len(asShare) == 1 {
 		shareCall = asShare[0]
 		haveShare = true
 		for _, f := range fetches {
-			if c17DependsOnValue(shareCall.Args()[0], f.Value()) {
+			if body.depends(shareCall.c.Args()[0], shareCall.fr, isVal(f)) {
 				shareFetch = f
 			}
 		}
 	}
-	dependsOnShare := func(v ssa.Value) bool {
-		return haveShare && c17DependsOnValue(v, shareCall.Value())
+	dependsOnShare := func(v ssa.Value, fr *c17GFrame) bool {
+		return haveShare && body.depends(v, fr, isVal(shareCall))
 	}
 
 	// P: deleted
@@ -805,14 +1600,14 @@ func c17RuleGate(p *Program, r *Reporter, a *c17Auth) {
 			pd.missing = "no (*index.Index).IsDeleted call: a deleted share would still be honoured"
 		case len(isDeleted) > 1:
 			pd.valueErr = "more than one IsDeleted call; expected one, on the first chain element"
-			pd.site = isDeleted[1].Pos()
+			pd.site = isDeleted[1].c.Pos()
 		default:
-			c := isDeleted[0]
-			pd.site = c.Pos()
-			if !g.isCur(c.Args()[1]) {
+			s := isDeleted[0]
+			pd.site = s.c.Pos()
+			if !g.isCur(s.c.Args()[1], s.fr) {
 				pd.valueErr = "IsDeleted is not asked about the current chain element"
 			}
-			pd.brs = boolCallBranches(c, 0, false)
+			pd.pm = c17BoolCallM(s, 0, false)
 		}
 		g.report(pd)
 	}
@@ -820,47 +1615,40 @@ func c17RuleGate(p *Program, r *Reporter, a *c17Auth) {
 	{
 		pd := &c17Pred{name: "share-fetch-err", what: "fetch of the share claim failed", scenarios: firstAll}
 		ps := &c17Pred{name: "size", what: "share blob larger than schema.MaxSchemaBlobSize", optional: true}
-		if shareFetch.Instr == nil {
+		if !shareFetch.ok() {
 			pd.missing = "no Fetch whose bytes are parsed into the share (AsShare receiver does not depend on a Fetch result)"
 			ps.missing = "no share fetch"
 			ps.optional = false
 		} else {
-			pd.site = shareFetch.Pos()
-			ps.site = shareFetch.Pos()
-			if !g.isCur(shareFetch.Args()[2]) {
+			pd.site = shareFetch.c.Pos()
+			ps.site = shareFetch.c.Pos()
+			if !g.isCur(shareFetch.c.Args()[2], shareFetch.fr) {
 				pd.valueErr = "the share is not fetched by the current chain element's ref"
 			}
-			pd.brs = errBranches(shareFetch)
+			pd.pm = c17ErrM(shareFetch)
 			// size predicate: comparison of the fetch's size result with the constant MaxSchemaBlobSize
 			maxC, _ := p.Pkg("pkg/schema").Types.Scope().Lookup("MaxSchemaBlobSize").(*types.Const)
 			if maxC == nil {
 				brokenf("anchor unresolved: schema.MaxSchemaBlobSize")
 			}
 			maxV, _ := constant.Int64Val(constant.ToInt(maxC.Val()))
-			sizeV := ResultValue(shareFetch.Value(), 1)
-			ps.brs = c17Branches(fn, func(cond ssa.Value) (bool, bool) {
+			sizeV := ResultValue(shareFetch.c.Value(), 1)
+			isSize := func(v ssa.Value, fr *c17GFrame) bool {
+				return sizeV != nil && body.depends(v, fr, func(x ssa.Value, f *c17GFrame) bool { return f == shareFetch.fr && x == sizeV })
+			}
+			ps.pm = &c17PredM{cond: func(fr *c17GFrame, cond ssa.Value) (bool, bool) {
 				bo, ok := cond.(*ssa.BinOp)
 				if !ok || sizeV == nil {
 					return false, false
 				}
 				x, y := bo.X, bo.Y
 				op := bo.Op
-				if cv, ok := ConstInt(x); ok && cv == maxV && c17DependsOnValue(y, sizeV) {
-					// K op size  ==  size op' K
-					x, y = y, x
-					switch op {
-					case token.LSS:
-						op = token.GTR
-					case token.LEQ:
-						op = token.GEQ
-					case token.GTR:
-						op = token.LSS
-					case token.GEQ:
-						op = token.LEQ
-					}
+				if cv, ok := ConstInt(x); ok && cv == maxV && isSize(y, fr) {
+					x, y = y, x // K op size  ==  size op' K
+					op = c17FlipOp(op)
 				}
 				cv, ok := ConstInt(y)
-				if !ok || cv != maxV || !c17DependsOnValue(x, sizeV) {
+				if !ok || cv != maxV || !isSize(x, fr) {
 					return false, false
 				}
 				switch op {
@@ -870,8 +1658,8 @@ func c17RuleGate(p *Program, r *Reporter, a *c17Auth) {
 					return true, true
 				}
 				return false, false
-			})
-			if len(ps.brs) == 0 {
+			}}
+			if all := body.resolve(*ps.pm, nil, false); len(all.rootBrs) == 0 {
 				ps.missing = "schema.BlobFromReader/parseSuperset enforces the same bound"
 			}
 		}
@@ -886,10 +1674,10 @@ func c17RuleGate(p *Program, r *Reporter, a *c17Auth) {
 			pd.missing = "no (*schema.Blob).AsShare call: the first chain element is not required to be a share claim"
 		case len(asShare) > 1:
 			pd.valueErr = "more than one AsShare call"
-			pd.site = asShare[1].Pos()
+			pd.site = asShare[1].c.Pos()
 		default:
-			pd.site = shareCall.Pos()
-			pd.brs = boolCallBranches(shareCall, 1, true)
+			pd.site = shareCall.c.Pos()
+			pd.pm = c17BoolCallM(shareCall, 1, true)
 		}
 		g.report(pd)
 	}
@@ -900,86 +1688,103 @@ func c17RuleGate(p *Program, r *Reporter, a *c17Auth) {
 		case len(isExpired) == 0:
 			pd.missing = "no (schema.Share).IsExpired call: expired shares would still be honoured"
 		default:
-			c := isExpired[0]
-			pd.site = c.Pos()
-			if !dependsOnShare(c.Args()[0]) {
+			s := isExpired[0]
+			pd.site = s.c.Pos()
+			if !dependsOnShare(s.c.Args()[0], s.fr) {
 				pd.valueErr = "IsExpired is not asked of the share parsed from the first chain element"
 			}
-			for _, c := range isExpired {
-				pd.brs = append(pd.brs, boolCallBranches(c, 0, false)...)
+			var ms []c17PredM
+			for _, s := range isExpired {
+				if m := c17BoolCallM(s, 0, false); m != nil {
+					ms = append(ms, *m)
+				}
 			}
+			m := c17CombineM(ms)
+			pd.pm = &m
 		}
 		g.report(pd)
 	}
 	// P: target equality: comparison of something derived from chain[1]/chain[i+1] with share.Target()
 	{
 		pd := &c17Pred{name: "target", what: "hop 1 is not the share's target", scenarios: []*c17Scenario{first2, first3, firstN}}
-		isTargetOfShare := func(v ssa.Value) bool {
-			return c17DependsOn(v, func(x ssa.Value) bool {
+		isTargetOfShare := func(v ssa.Value, fr *c17GFrame) bool {
+			return body.depends(v, fr, func(x ssa.Value, f *c17GFrame) bool {
 				c, ok := x.(*ssa.Call)
 				if !ok {
 					return false
 				}
-				cs := CallSite{fn, c}
+				cs := CallSite{c.Parent(), c}
 				if !(cs.IsStatic("perkeep.org/pkg/schema", "Claim", "Target") || cs.IsStatic("perkeep.org/pkg/schema", "Share", "Target") || cs.IsStatic("perkeep.org/pkg/schema", "Blob", "ShareTarget")) {
 					return false
 				}
-				return dependsOnShare(c.Call.Args[0]) || (haveShare && c17DependsOnValue(c.Call.Args[0], shareCall.Args()[0]))
+				return dependsOnShare(c.Call.Args[0], f) || (haveShare && body.depends(c.Call.Args[0], f, func(y ssa.Value, yf *c17GFrame) bool {
+					r1, f1 := c17Resolve(shareCall.c.Args()[0], shareCall.fr)
+					r2, f2 := c17Resolve(y, yf)
+					return f1 == f2 && r1 == r2
+				}))
 			})
 		}
-		isHop1 := func(v ssa.Value) bool {
-			return c17DependsOn(v, func(x ssa.Value) bool { return g.isElemAt(x, 1, false) || g.isElemAt(x, 0, true) })
+		isHop1 := func(v ssa.Value, fr *c17GFrame) bool {
+			return body.depends(v, fr, func(x ssa.Value, f *c17GFrame) bool {
+				if _, isLoad := x.(*ssa.UnOp); !isLoad {
+					return false
+				}
+				return g.isElemAt(x, f, 1, false) || g.isElemAt(x, f, 0, true)
+			})
 		}
-		pd.brs = c17Branches(fn, func(cond ssa.Value) (bool, bool) {
+		pd.pm = &c17PredM{cond: func(fr *c17GFrame, cond ssa.Value) (bool, bool) {
 			bo, ok := cond.(*ssa.BinOp)
 			if !ok || (bo.Op != token.EQL && bo.Op != token.NEQ) {
 				return false, false
 			}
-			if (isTargetOfShare(bo.X) && isHop1(bo.Y)) || (isTargetOfShare(bo.Y) && isHop1(bo.X)) {
+			if (isTargetOfShare(bo.X, fr) && isHop1(bo.Y, fr)) || (isTargetOfShare(bo.Y, fr) && isHop1(bo.X, fr)) {
 				return true, bo.Op == token.EQL
 			}
 			return false, false
-		})
-		if len(pd.brs) == 0 {
-			pd.missing = "no comparison between the second chain element and the target of the share parsed from the first: any blob could be requested through any share"
+		}}
+		if all := body.resolve(*pd.pm, nil, false); len(all.rootBrs) == 0 {
+			pd.missing = "no comparison between the second chain element and the target of the share parsed from the first decides a branch: any blob could be requested through any share"
+			if len(all.notes) > 0 {
+				pd.missing += " (" + strings.Join(c17Uniq(all.notes), "; ") + ")"
+			}
 		} else {
-			pd.site = pd.brs[0].If.Cond.Pos()
+			pd.site = all.rootBrs[0].If.Cond.Pos()
 		}
 		g.report(pd)
 	}
 	// P: transitive (in loop: chains longer than 2) and assemble (after loop)
-	isTransVal := func(v ssa.Value) bool {
+	isTransVal := func(v ssa.Value, fr *c17GFrame) bool {
 		// IsTransitive() of the share, or a phi all of whose leaves are that or the constant false
 		sawCall := false
-		for _, l := range c17PhiLeaves(v) {
-			if c, ok := l.(*ssa.Call); ok {
-				cs := CallSite{fn, c}
-				if cs.IsStatic("perkeep.org/pkg/schema", "Share", "IsTransitive") && dependsOnShare(c.Call.Args[0]) {
+		for _, l := range body.leaves(v, fr) {
+			if c, ok := l.v.(*ssa.Call); ok {
+				cs := CallSite{c.Parent(), c}
+				if cs.IsStatic("perkeep.org/pkg/schema", "Share", "IsTransitive") && dependsOnShare(c.Call.Args[0], l.fr) {
 					sawCall = true
 					continue
 				}
 				return false
 			}
-			if k, ok := l.(*ssa.Const); ok && k.Value != nil && k.Value.Kind() == constant.Bool && !constant.BoolVal(k.Value) {
+			if k, ok := l.v.(*ssa.Const); ok && k.Value != nil && k.Value.Kind() == constant.Bool && !constant.BoolVal(k.Value) {
 				continue
 			}
 			return false
 		}
 		return sawCall
 	}
-	transBranches := c17Branches(fn, func(cond ssa.Value) (bool, bool) {
-		if isTransVal(cond) {
+	transM := &c17PredM{cond: func(fr *c17GFrame, cond ssa.Value) (bool, bool) {
+		if isTransVal(cond, fr) {
 			return true, true
 		}
 		return false, false
-	})
+	}}
 	{
 		pd := &c17Pred{name: "transitive", what: "share is not transitive but the chain is longer than share -> target", scenarios: []*c17Scenario{first3, firstN}}
 		if len(isTransitive) == 0 {
 			pd.missing = "no (schema.Share).IsTransitive call: non-transitive shares would open their whole subtree"
 		} else {
-			pd.site = isTransitive[0].Pos()
-			pd.brs = transBranches
+			pd.site = isTransitive[0].c.Pos()
+			pd.pm = transM
 		}
 		g.report(pd)
 	}
@@ -992,32 +1797,32 @@ func c17RuleGate(p *Program, r *Reporter, a *c17Auth) {
 			pl.missing = "bytesHaveSchemaLink is not called: via hops are not checked for a link to the next element"
 			pe.missing = "no link check, hence no fetch feeding it"
 		default:
-			c := linkCalls[0]
-			pl.site = c.Pos()
-			var linkFetch CallSite
+			s := linkCalls[0]
+			pl.site = s.c.Pos()
+			var linkFetch c17Site
 			for _, f := range fetches {
-				if c17DependsOnValue(c.Args()[1], f.Value()) {
+				if body.depends(s.c.Args()[1], s.fr, isVal(f)) {
 					linkFetch = f
 				}
 			}
 			switch {
 			case len(linkCalls) > 1:
 				pl.valueErr = "more than one bytesHaveSchemaLink call"
-			case linkFetch.Instr == nil:
+			case !linkFetch.ok():
 				pl.valueErr = "the bytes searched for the link are not the bytes fetched in this handler"
-			case !g.isCur(linkFetch.Args()[2]):
+			case !g.isCur(linkFetch.c.Args()[2], linkFetch.fr):
 				pl.valueErr = "the bytes searched for the link were not fetched by the current chain element's ref"
-			case !g.isElemAt(c.Args()[2], 0, true):
+			case !g.isElemAt(s.c.Args()[2], s.fr, 0, true):
 				pl.valueErr = "the link sought is not the next chain element (chain[i+1])"
-			case !g.isCur(c.Args()[0]):
+			case !g.isCur(s.c.Args()[0], s.fr):
 				pl.valueErr = "the ref given for the searched blob is not the current chain element"
 			}
-			pl.brs = boolCallBranches(c, 0, true)
-			if linkFetch.Instr == nil {
+			pl.pm = c17BoolCallM(s, 0, true)
+			if !linkFetch.ok() {
 				pe.missing = "no Fetch feeds bytesHaveSchemaLink"
 			} else {
-				pe.site = linkFetch.Pos()
-				pe.brs = errBranches(linkFetch)
+				pe.site = linkFetch.c.Pos()
+				pe.pm = c17ErrM(linkFetch)
 			}
 		}
 		g.report(pe)
@@ -1025,36 +1830,29 @@ func c17RuleGate(p *Program, r *Reporter, a *c17Auth) {
 	}
 
 	// --- emitters
+	transRes := body.resolve(*transM, nil, true)
 	for _, e := range g.emitters {
-		construct := g.key + "#emit:" + e.CalleeKey()
-		es := p.Pos(e.Pos())
+		construct := g.key + "#emit:" + e.c.CalleeKey()
+		es := p.Pos(e.c.Pos())
 		var why []string
-		if !(lp.Done == e.Block() || lp.Done.Dominates(e.Block())) || lp.In[e.Block()] {
+		rb := e.rootBlock()
+		if !(lp.Done == rb || lp.Done.Dominates(rb)) || lp.In[rb] {
 			why = append(why, "not dominated by normal exhaustion of the chain loop: the response can be written before every chain element was validated")
 		}
 		servesRef := false
-		for _, a := range e.Args() {
-			if sameOrigin(a, g.ref) {
+		for _, arg := range e.c.Args() {
+			if g.isRootVal(arg, e.fr, g.ref) {
 				servesRef = true
-			} else if IsNamed(a.Type(), "perkeep.org/pkg/blob", "Ref") {
+			} else if IsNamed(arg.Type(), "perkeep.org/pkg/blob", "Ref") {
 				why = append(why, "serves a blob.Ref other than the requested (validated) blobRef parameter")
 			}
 		}
 		if !servesRef {
 			why = append(why, "does not serve the requested blobRef parameter")
 		}
-		single := e.IsStatic("perkeep.org/pkg/blobserver/gethandler", "", "ServeBlobRef")
-		transOK := false
-		if !single {
-			for _, f := range FactsAt(e.Block()) {
-				c, v := c17StripNot(f.Cond, f.Val)
-				if v && isTransVal(c) {
-					transOK = true
-				}
-			}
-			if !transOK {
-				why = append(why, "may serve more than the one validated blob (not gethandler.ServeBlobRef) but is not under the fact share.IsTransitive()==true")
-			}
+		single := e.c.IsStatic("perkeep.org/pkg/blobserver/gethandler", "", "ServeBlobRef")
+		if !single && !transRes.under(e.fr, e.c.Block()) {
+			why = append(why, "may serve more than the one validated blob (not gethandler.ServeBlobRef) but is not under the fact share.IsTransitive()==true")
 		}
 		if len(why) > 0 {
 			r.Violation("H-gate", construct, es, strings.Join(why, "; "))
@@ -1064,26 +1862,39 @@ func c17RuleGate(p *Program, r *Reporter, a *c17Auth) {
 		if !single {
 			d += "; multi-blob emitter under isTransitive==true"
 		}
+		if !e.fr.isRoot() {
+			d += " (in helper " + e.fr.chainName() + ")"
+		}
 		r.OK("H-gate", construct, es, d)
 	}
 
 	// --- method gate
 	{
 		construct := g.key + "#method-gate"
-		isGet := func(c CallSite) bool {
-			return c.IsStatic("perkeep.org/internal/httputil", "", "IsGet") && sameOrigin(c.Args()[0], g.req)
+		getSites := body.sites(func(fr *c17GFrame, c CallSite) bool {
+			return c.Value() != nil && c.IsStatic("perkeep.org/internal/httputil", "", "IsGet") && g.isRootVal(c.Args()[0], fr, g.req)
+		})
+		var ms []c17PredM
+		for _, s := range getSites {
+			if m := c17BoolCallM(s, 0, true); m != nil {
+				ms = append(ms, *m)
+			}
 		}
+		getRes := body.resolve(c17CombineM(ms), nil, true)
 		var bad []string
-		check := func(what string, c CallSite) {
-			if k, v, _ := BoolCallFact(c.Block(), isGet); !(k && v) {
-				bad = append(bad, fmt.Sprintf("%s at %s is not under httputil.IsGet(req)==true", what, p.Pos(c.Pos())))
+		check := func(what string, s c17Site) {
+			if !getRes.under(s.fr, s.c.Block()) {
+				bad = append(bad, fmt.Sprintf("%s at %s is not under httputil.IsGet(req)==true", what, p.Pos(s.c.Pos())))
 			}
 		}
 		for _, f := range fetches {
 			check("Fetch", f)
 		}
 		for _, e := range g.emitters {
-			check("emitter "+e.CalleeKey(), e)
+			check("emitter "+e.c.CalleeKey(), e)
+		}
+		if len(bad) > 0 {
+			bad = append(bad, getRes.notes...)
 		}
 		r.Check(len(bad) == 0, "H-gate", construct, site, fmt.Sprintf("all %d Fetch calls and %d emitters are dominated by httputil.IsGet(req)==true", len(fetches), len(g.emitters)), strings.Join(bad, "; "))
 	}
@@ -1105,7 +1916,7 @@ func c17WhoServes(p *Program, r *Reporter, a *c17Auth, g *c17Gate) {
 	a.tables()
 	done := map[*ssa.Function]bool{}
 	for _, e := range g.emitters {
-		ef := e.Callee()
+		ef := e.c.Callee()
 		if ef == nil || !InModule(ef) || done[ef] {
 			continue
 		}
@@ -1209,6 +2020,8 @@ func c17GateEntries(p *Program, r *Reporter, gate *ssa.Function) {
 			case callee != nil && (allowed[callee] || callee == gate):
 			case callee != nil && callee.Pkg == gate.Pkg && callee.Signature.Recv() != nil && NamedOf(callee.Signature.Recv().Type()) == recv:
 				work = append(work, callee) // another method of the share handler: checked the same way
+			case !c.IsGo() && c17Inlinable(gate, callee) && c17OneParam(callee, "net/http", "ResponseWriter") != nil:
+				work = append(work, callee) // unexported pkg/server helper or literal of the entry point's effective body: checked the same way
 			case callee != nil && c17ErrorSenders[FuncKeyAny(callee)] != "":
 			default:
 				bad = append(bad, fmt.Sprintf("%s at %s", c.CalleeKey(), p.Pos(c.Pos())))
@@ -1283,21 +2096,26 @@ func c17RuleLinks(p *Program, r *Reporter) {
 	site := p.Pos(fn.Pos())
 	r.Floor("H-links", 9)
 	blobT := p.NamedType("pkg/schema", "Blob")
+	// the link check's effective body: the function plus the unexported
+	// pkg/server helpers and literals it calls
+	body := c17EffectiveBody(fn, nil)
 
 	// target: the blob.Ref parameter that is not the searched blob's own ref (the one given to BlobFromReader)
-	var parse []CallSite
-	for _, c := range CallsIn(fn, false) {
-		if c.IsStatic("perkeep.org/pkg/schema", "", "BlobFromReader") && c.Value() != nil {
-			parse = append(parse, c)
-		}
-	}
+	parse := body.sites(func(fr *c17GFrame, c CallSite) bool {
+		return c.IsStatic("perkeep.org/pkg/schema", "", "BlobFromReader") && c.Value() != nil
+	})
 	if len(parse) != 1 {
 		r.Violation("H-links", key+"#parse", site, fmt.Sprintf("expected exactly one schema.BlobFromReader call (the link check must parse the blob, not search its text); found %d", len(parse)))
 		return
 	}
+	ps := parse[0]
+	isRootVal := func(v ssa.Value, fr *c17GFrame, rv ssa.Value) bool {
+		x, f := c17Resolve(v, fr)
+		return f != nil && f.isRoot() && sameOrigin(x, rv)
+	}
 	var target *ssa.Parameter
 	for _, prm := range c17Params(fn, "perkeep.org/pkg/blob", "Ref") {
-		if sameOrigin(parse[0].Args()[0], prm) {
+		if isRootVal(ps.c.Args()[0], ps.fr, prm) {
 			continue
 		}
 		if target != nil {
@@ -1308,10 +2126,26 @@ func c17RuleLinks(p *Program, r *Reporter) {
 	if target == nil {
 		brokenf("anchor unresolved: %s has no target blob.Ref parameter", key)
 	}
-	parsed := ResultValue(parse[0].Value(), 0)
-	if parsed == nil {
+	parsedRaw := ResultValue(ps.c.Value(), 0)
+	if parsedRaw == nil {
 		r.Violation("H-links", key+"#parse", site, "the parsed *schema.Blob is discarded")
 		return
+	}
+	// isParsed: v is the blob parsed by that call (possibly handed through helper parameters / results)
+	isParsed := func(v ssa.Value, fr *c17GFrame) bool {
+		saw := false
+		for _, l := range body.leaves(v, fr) {
+			lv, lf := c17Resolve(l.v, l.fr)
+			if IsNilConst(lv) {
+				continue
+			}
+			if lf == ps.fr && lv == parsedRaw {
+				saw = true
+				continue
+			}
+			return false
+		}
+		return saw
 	}
 	// the parsed bytes are the function's byte-slice parameter
 	{
@@ -1323,8 +2157,8 @@ func c17RuleLinks(p *Program, r *Reporter) {
 				}
 			}
 		}
-		ok := bb != nil && c17DependsOnValue(parse[0].Args()[1], bb)
-		r.Check(ok, "H-links", key+"#parse", p.Pos(parse[0].Pos()), "the blob is parsed (schema.BlobFromReader) from the byte-slice parameter", "schema.BlobFromReader does not read the bytes parameter")
+		ok := bb != nil && body.depends(ps.c.Args()[1], ps.fr, func(x ssa.Value, f *c17GFrame) bool { return f.isRoot() && x == ssa.Value(bb) })
+		r.Check(ok, "H-links", key+"#parse", p.Pos(ps.c.Pos()), "the blob is parsed (schema.BlobFromReader) from the byte-slice parameter", "schema.BlobFromReader does not read the bytes parameter")
 	}
 
 	// 1. exhaustive classification of Ref-carrying accessors
@@ -1367,76 +2201,41 @@ func c17RuleLinks(p *Program, r *Reporter) {
 	}
 	sort.Strings(links)
 
-	// comparisons with target: value -> the If branches / returns it decides
-	isTarget := func(v ssa.Value) bool { return sameOrigin(v, target) }
-	type cmp struct {
-		val   ssa.Value // bool: true == "equals target"
-		from  ssa.Value // the compared operand (not the target side)
-		label string
+	// link conditions: a boolean that is true only when the result of a
+	// tree-link accessor of the parsed blob equals target — a direct comparison,
+	// or the verdict of a helper all of whose yes-answers are such conditions.
+	type hit struct {
+		name, field string
+		fr          *c17GFrame
+		blk         *ssa.BasicBlock
 	}
-	var cmps []cmp
-	for _, b := range fn.Blocks {
-		for _, in := range b.Instrs {
-			switch x := in.(type) {
-			case *ssa.BinOp:
-				if x.Op != token.EQL {
-					continue
-				}
-				if isTarget(x.Y) {
-					cmps = append(cmps, cmp{x, x.X, "=="})
-				} else if isTarget(x.X) {
-					cmps = append(cmps, cmp{x, x.Y, "=="})
-				}
-			case *ssa.Call:
-				cs := CallSite{fn, x}
-				if c17IsGenericStatic(cs, "slices", "Contains") && len(x.Call.Args) == 2 && isTarget(x.Call.Args[1]) {
-					cmps = append(cmps, cmp{x, x.Call.Args[0], "slices.Contains"})
-				}
+	accessorOf := func(x ssa.Value, f *c17GFrame) (string, bool) {
+		c, ok := x.(*ssa.Call)
+		if !ok {
+			return "", false
+		}
+		cs := CallSite{c.Parent(), c}
+		for _, name := range links {
+			if cs.IsStatic("perkeep.org/pkg/schema", "Blob", name) && isParsed(cs.Args()[0], f) {
+				return name, true
 			}
 		}
+		return "", false
 	}
-	// decisive: some return value is the comparison itself, or a `return true` sits under comparison==true
-	rets := Returns(fn)
-	decisive := func(c cmp) bool {
-		for _, ri := range rets {
-			v := ri.Results[0]
-			if originValue(v) == c.val {
-				return true
-			}
-			if k, ok := v.(*ssa.Const); ok && k.Value != nil && k.Value.Kind() == constant.Bool && constant.BoolVal(k.Value) {
-				for _, f := range FactsAt(ri.Ret.Block()) {
-					cond, val := c17StripNot(f.Cond, f.Val)
-					if val && cond == c.val {
-						return true
-					}
-				}
-			}
+	refFields := func(name string) []string {
+		m := c17Method(p, blobT, name)
+		if m == nil {
+			return nil
 		}
-		return false
-	}
-
-	// 2. each link accessor honoured
-	for _, name := range links {
-		cl := c17RefAccessors[name]
-		construct := key + "#" + name
-		var calls []CallSite
-		for _, c := range CallsIn(fn, false) {
-			if c.IsStatic("perkeep.org/pkg/schema", "Blob", name) && c.Value() != nil && sameOrigin(c.Args()[0], parsed) {
-				calls = append(calls, c)
-			}
-		}
-		if len(calls) == 0 {
-			r.Violation("H-links", construct, site, fmt.Sprintf("(*schema.Blob).%s is never consulted on the parsed blob: links of kind %q (%s) are refused in a transitive share chain", name, name, cl.reason))
-			continue
-		}
-		var why []string
-		// which Ref-typed pieces of the result must be compared
-		resT := calls[0].Value().Call.Signature().Results().At(0).Type()
-		var fields []string // for struct elements: names of blob.Ref fields; empty = the value itself
+		resT := m.Signature.Results().At(0).Type()
 		elem := resT
 		if sl, ok := resT.Underlying().(*types.Slice); ok {
 			elem = sl.Elem()
 		}
+		if pt, ok := elem.Underlying().(*types.Pointer); ok {
+			elem = pt.Elem()
+		}
+		var fields []string
 		if st, ok := elem.Underlying().(*types.Struct); ok && !IsNamed(elem, "perkeep.org/pkg/blob", "Ref") {
 			for i := 0; i < st.NumFields(); i++ {
 				if IsNamed(st.Field(i).Type(), "perkeep.org/pkg/blob", "Ref") {
@@ -1444,112 +2243,167 @@ func c17RuleLinks(p *Program, r *Reporter) {
 				}
 			}
 		}
-		okCall := false
-		for _, c := range calls {
-			res := ResultValue(c.Value(), 0)
-			if res == nil {
-				continue
-			}
-			var mine []cmp
-			for _, cm := range cmps {
-				if c17DependsOnValue(cm.from, res) {
-					mine = append(mine, cm)
-				}
-			}
-			if len(fields) == 0 {
-				dec := false
-				for _, cm := range mine {
-					dec = dec || decisive(cm)
-				}
-				if !dec {
-					why = append(why, "its result is not compared with target in a way that decides the return value")
-					continue
-				}
-			} else {
-				missing := false
-				for _, fname := range fields {
-					got := false
-					for _, cm := range mine {
-						if c17ReadsField(cm.from, fname) && decisive(cm) {
-							got = true
-						}
-					}
-					if !got {
-						why = append(why, fmt.Sprintf("field %s of its elements is not compared with target decisively", fname))
-						missing = true
-					}
-				}
-				if missing {
-					continue
-				}
-			}
-			// reachable for every camliType the accessor applies to
-			typeOK := true
-			for _, ct := range cl.types {
-				if !c17ReachableForType(fn, parsed, ct, c.Block()) {
-					why = append(why, fmt.Sprintf("the call is not reachable when the blob's camliType is %q", ct))
-					typeOK = false
-				}
-			}
-			if typeOK {
-				okCall = true
-			}
-		}
-		if okCall {
-			r.OK("H-links", construct, p.Pos(calls[0].Pos()), fmt.Sprintf("consulted on the parsed blob, reachable for camliType %s, compared with target, comparison decides the result (%s)", strings.Join(cl.types, "/"), cl.reason))
-		} else {
-			r.Violation("H-links", construct, p.Pos(calls[0].Pos()), fmt.Sprintf("(*schema.Blob).%s is called but %s", name, strings.Join(why, "; ")))
-		}
+		return fields
 	}
-
-	// 3. only those: every possibly-true return is guarded by a comparison of a link accessor's result with target
-	isLinkCmp := func(v ssa.Value) bool {
-		for _, cm := range cmps {
-			if cm.val != v {
-				continue
+	directCmp := func(v ssa.Value, fr *c17GFrame) (from ssa.Value, ok bool) {
+		switch x := v.(type) {
+		case *ssa.BinOp:
+			if x.Op != token.EQL {
+				return nil, false
 			}
-			return c17DependsOn(cm.from, func(x ssa.Value) bool {
-				c, ok := x.(*ssa.Call)
-				if !ok {
-					return false
-				}
-				cs := CallSite{fn, c}
-				for _, name := range links {
-					if cs.IsStatic("perkeep.org/pkg/schema", "Blob", name) && sameOrigin(cs.Args()[0], parsed) {
-						return true
+			if isRootVal(x.Y, fr, target) {
+				return x.X, true
+			}
+			if isRootVal(x.X, fr, target) {
+				return x.Y, true
+			}
+		case *ssa.Call:
+			cs := CallSite{x.Parent(), x}
+			if c17IsGenericStatic(cs, "slices", "Contains") && len(x.Call.Args) == 2 && isRootVal(x.Call.Args[1], fr, target) {
+				return x.Call.Args[0], true
+			}
+		}
+		return nil, false
+	}
+	var yesLeaves func(fr *c17GFrame, depth int, each func(ret *ssa.Return, hits []hit, ok bool)) (hits []hit, ok bool, n int)
+	var linkCond func(v ssa.Value, fr *c17GFrame, depth int) ([]hit, bool)
+	linkCond = func(v ssa.Value, fr *c17GFrame, depth int) ([]hit, bool) {
+		v = originValue(v)
+		fr = c17Adjust(v, fr)
+		if from, ok := directCmp(v, fr); ok {
+			var hits []hit
+			body.depends(from, fr, func(x ssa.Value, f *c17GFrame) bool {
+				if name, ok := accessorOf(x, f); ok {
+					fields := refFields(name)
+					if len(fields) == 0 {
+						hits = append(hits, hit{name, "", f, x.(*ssa.Call).Block()})
+					}
+					for _, fname := range fields {
+						if c17ReadsField(from, fname) {
+							hits = append(hits, hit{name, fname, f, x.(*ssa.Call).Block()})
+						}
 					}
 				}
 				return false
 			})
+			return hits, len(hits) > 0
 		}
-		return false
-	}
-	nTrue := 0
-	for i, ri := range rets {
-		v := ri.Results[0]
-		for _, leaf := range c17PhiLeaves(v) {
-			if k, ok := leaf.(*ssa.Const); ok && k.Value != nil && k.Value.Kind() == constant.Bool && !constant.BoolVal(k.Value) {
-				continue // return false
+		if c, ok := v.(*ssa.Call); ok && depth < 5 {
+			if kid := fr.kids[c]; kid != nil && kid.fn.Signature.Results().Len() == 1 && c17IsBool(kid.fn.Signature.Results().At(0).Type()) {
+				hits, ok, n := yesLeaves(kid, depth+1, nil)
+				return hits, ok && n > 0
 			}
-			nTrue++
-			construct := fmt.Sprintf("%s#yes-return", key)
-			_ = i
-			ok := false
-			if k, isC := leaf.(*ssa.Const); isC && k.Value != nil {
-				for _, f := range FactsAt(ri.Ret.Block()) {
-					cond, val := c17StripNot(f.Cond, f.Val)
-					if val && isLinkCmp(cond) {
-						ok = true
-					}
+		}
+		return nil, false
+	}
+	isFalse := func(v ssa.Value) bool {
+		k, ok := v.(*ssa.Const)
+		return ok && k.Value != nil && k.Value.Kind() == constant.Bool && !constant.BoolVal(k.Value)
+	}
+	yesLeaves = func(fr *c17GFrame, depth int, each func(ret *ssa.Return, hits []hit, ok bool)) ([]hit, bool, int) {
+		var all []hit
+		allOK := true
+		n := 0
+		for _, rl := range c17RetLeaves(fr.fn, 0) {
+			var facts []CondFact
+			if rl.from != nil {
+				facts = c17EdgeFacts(rl.from, rl.ret.Block())
+			} else {
+				facts = FactsAt(rl.ret.Block())
+			}
+			for _, leaf := range c17PhiLeaves(rl.val) {
+				if isFalse(leaf) {
+					continue
 				}
-			} else if isLinkCmp(originValue(leaf)) {
-				ok = true
+				n++
+				var hits []hit
+				ok := false
+				if _, isC := leaf.(*ssa.Const); isC {
+					fs := facts
+					if leaf != rl.val {
+						fs = FactsAt(rl.ret.Block()) // operand of a phi elsewhere: only what dominates the return
+					}
+					for _, f := range fs {
+						cond, val := c17StripNot(f.Cond, f.Val)
+						if !val {
+							continue
+						}
+						if h, lok := linkCond(cond, fr, depth); lok {
+							hits = append(hits, h...)
+							ok = true
+						}
+					}
+				} else if h, lok := linkCond(leaf, fr, depth); lok {
+					hits, ok = h, true
+				}
+				if each != nil {
+					each(rl.ret, hits, ok)
+				}
+				all = append(all, hits...)
+				allOK = allOK && ok
 			}
-			r.Check(ok, "H-links", construct, p.Pos(ri.Ret.Pos()), "a 'has link' answer is decided by equality of a tree-link accessor's result with target", "bytesHaveSchemaLink can answer true without a tree-link accessor's result being equal to target (text search or a non-link field would open unrelated blobs)")
 		}
+		return all, allOK, n
 	}
+
+	// 3. only those: every possibly-true return is guarded by a link condition
+	decisive, _, nTrue := yesLeaves(body.root, 0, func(ret *ssa.Return, hits []hit, ok bool) {
+		r.Check(ok, "H-links", key+"#yes-return", p.Pos(ret.Pos()), "a 'has link' answer is decided by equality of a tree-link accessor's result with target", "bytesHaveSchemaLink can answer true without a tree-link accessor's result being equal to target (text search or a non-link field would open unrelated blobs)")
+	})
 	if nTrue == 0 {
 		r.Violation("H-links", key+"#yes-return", site, "bytesHaveSchemaLink never returns true")
+	}
+
+	// 2. each link accessor honoured: consulted on the parsed blob, its result
+	// (every blob.Ref field of its elements) compared with target in a
+	// condition that decides a yes-answer, reachable for each camliType
+	for _, name := range links {
+		cl := c17RefAccessors[name]
+		construct := key + "#" + name
+		calls := body.sites(func(fr *c17GFrame, c CallSite) bool {
+			return c.IsStatic("perkeep.org/pkg/schema", "Blob", name) && c.Value() != nil && isParsed(c.Args()[0], fr)
+		})
+		if len(calls) == 0 {
+			r.Violation("H-links", construct, site, fmt.Sprintf("(*schema.Blob).%s is never consulted on the parsed blob: links of kind %q (%s) are refused in a transitive share chain", name, name, cl.reason))
+			continue
+		}
+		var why []string
+		fields := refFields(name)
+		if len(fields) == 0 {
+			fields = []string{""}
+		}
+		for _, fname := range fields {
+			var mine []hit
+			for _, h := range decisive {
+				if h.name == name && h.field == fname {
+					mine = append(mine, h)
+				}
+			}
+			if len(mine) == 0 {
+				if fname == "" {
+					why = append(why, "its result is not compared with target in a way that decides the return value")
+				} else {
+					why = append(why, fmt.Sprintf("field %s of its elements is not compared with target decisively", fname))
+				}
+				continue
+			}
+			for _, ct := range cl.types {
+				reach := false
+				for _, h := range mine {
+					if c17ReachableForType(h.fr, isParsed, ct, h.blk) {
+						reach = true
+					}
+				}
+				if !reach {
+					why = append(why, fmt.Sprintf("the call is not reachable when the blob's camliType is %q", ct))
+				}
+			}
+		}
+		if len(why) == 0 {
+			r.OK("H-links", construct, p.Pos(calls[0].c.Pos()), fmt.Sprintf("consulted on the parsed blob, reachable for camliType %s, compared with target, comparison decides the result (%s)", strings.Join(cl.types, "/"), cl.reason))
+		} else {
+			r.Violation("H-links", construct, p.Pos(calls[0].c.Pos()), fmt.Sprintf("(*schema.Blob).%s is called but %s", name, strings.Join(c17Uniq(why), "; ")))
+		}
 	}
 }
 
@@ -1566,17 +2420,33 @@ func c17ReadsField(v ssa.Value, name string) bool {
 	})
 }
 
-// c17ReachableForType: is block reachable from the entry when every comparison
-// of (*schema.Blob).Type() of the parsed blob with a constant is decided as if
-// the type were ct?
-func c17ReachableForType(fn *ssa.Function, parsed ssa.Value, ct string, block *ssa.BasicBlock) bool {
+// c17ReachableForType: is block (of frame fr of the link check's effective
+// body) reachable from the entry when every comparison of (*schema.Blob).Type()
+// of the parsed blob with a constant is decided as if the type were ct? For a
+// helper frame the calls leading to it must be reachable the same way.
+func c17ReachableForType(fr *c17GFrame, isParsed func(ssa.Value, *c17GFrame) bool, ct string, block *ssa.BasicBlock) bool {
+	for fr != nil {
+		if !c17ReachableForType1(fr, isParsed, ct, block) {
+			return false
+		}
+		if fr.parent == nil {
+			break
+		}
+		block, fr = fr.call.Block(), fr.parent
+	}
+	return true
+}
+
+func c17ReachableForType1(fr *c17GFrame, isParsed func(ssa.Value, *c17GFrame) bool, ct string, block *ssa.BasicBlock) bool {
+	fn := fr.fn
 	isType := func(v ssa.Value) bool {
-		c, ok := originValue(v).(*ssa.Call)
+		x, f := c17Resolve(v, fr)
+		c, ok := x.(*ssa.Call)
 		if !ok {
 			return false
 		}
-		cs := CallSite{fn, c}
-		return cs.IsStatic("perkeep.org/pkg/schema", "Blob", "Type") && sameOrigin(cs.Args()[0], parsed)
+		cs := CallSite{c.Parent(), c}
+		return cs.IsStatic("perkeep.org/pkg/schema", "Blob", "Type") && isParsed(cs.Args()[0], f)
 	}
 	seen := map[*ssa.BasicBlock]bool{}
 	var walk func(b *ssa.BasicBlock)
@@ -2418,24 +3288,58 @@ var c17RefusingHelpers = map[string]string{
 }
 
 // classifyFunc: a handler function is behind auth when every call that gets
-// its ResponseWriter is ServeHTTP on an auth-classified handler value or a
-// refusing helper.
+// its ResponseWriter is ServeHTTP on an auth-classified handler value, a
+// refusing helper, or a helper of its effective body (the method behind a
+// bound method value, an unexported same-package function or a literal) that
+// itself satisfies the same rule — and at least one auth-wrapped ServeHTTP is
+// reached.
 func (a *c17Auth) classifyFunc(f *ssa.Function, depth int) (bool, string) {
+	ok, why, nAuth := a.classifyFuncN(f, depth, map[*ssa.Function]bool{})
+	if !ok {
+		return false, why
+	}
+	if nAuth == 0 {
+		return false, FuncKey(f) + " never serves through an auth-wrapped handler"
+	}
+	return true, fmt.Sprintf("handler function %s: every response path is ServeHTTP on an auth.RequireAuth value or a 400 helper", FuncKey(f))
+}
+
+// c17HandlerHelper: callee belongs to the effective body of handler function f.
+func c17HandlerHelper(f, callee *ssa.Function) bool {
+	if callee == nil || len(callee.Blocks) == 0 {
+		return false
+	}
+	if f.Synthetic != "" && f.Pkg == nil {
+		// bound-method / thunk wrapper: its only call is the wrapped method
+		return InModule(callee) || callee.Parent() != nil
+	}
+	return c17Inlinable(f, callee)
+}
+
+func (a *c17Auth) classifyFuncN(f *ssa.Function, depth int, busy map[*ssa.Function]bool) (bool, string, int) {
 	p := a.p
+	if busy[f] {
+		return true, "", 0
+	}
+	busy[f] = true
+	defer delete(busy, f)
+	if depth > 8 {
+		return false, FuncKey(f) + ": helper chain too deep to classify", 0
+	}
 	rw := c17OneParam(f, "net/http", "ResponseWriter")
 	if rw == nil {
-		return false, FuncKey(f) + " has no ResponseWriter parameter"
+		return false, FuncKey(f) + " has no ResponseWriter parameter", 0
 	}
 	uses := c17UsesOf(f, rw)
-	if len(uses) == 0 {
-		return false, FuncKey(f) + " never uses its ResponseWriter"
+	if len(uses) == 0 && len(busy) == 1 {
+		return false, FuncKey(f) + " never uses its ResponseWriter", 0
 	}
 	nAuth := 0
 	for _, c := range uses {
 		if c.Common().IsInvoke() && c.MethodName() == "ServeHTTP" {
 			ok, why := a.classify(c.Common().Value, nil, c.Block(), f, depth+1)
 			if !ok {
-				return false, fmt.Sprintf("%s serves through a handler that is not auth-wrapped at %s: %s", FuncKey(f), p.Pos(c.Pos()), why)
+				return false, fmt.Sprintf("%s serves through a handler that is not auth-wrapped at %s: %s", FuncKey(f), p.Pos(c.Pos()), why), 0
 			}
 			nAuth++
 			continue
@@ -2445,15 +3349,20 @@ func (a *c17Auth) classifyFunc(f *ssa.Function, depth int) (bool, string) {
 				if a.onlyErrorReplies(callee) {
 					continue
 				}
-				return false, FuncKey(callee) + " no longer only replies with an error"
+				return false, FuncKey(callee) + " no longer only replies with an error", 0
+			}
+			if !c.IsGo() && c17HandlerHelper(f, callee) && c17OneParam(callee, "net/http", "ResponseWriter") != nil {
+				ok, why, n := a.classifyFuncN(callee, depth+1, busy)
+				if !ok {
+					return false, why, 0
+				}
+				nAuth += n
+				continue
 			}
 		}
-		return false, fmt.Sprintf("%s hands the ResponseWriter to %s at %s without an auth wrapper", FuncKey(f), c.CalleeKey(), p.Pos(c.Pos()))
+		return false, fmt.Sprintf("%s hands the ResponseWriter to %s at %s without an auth wrapper", FuncKey(f), c.CalleeKey(), p.Pos(c.Pos())), 0
 	}
-	if nAuth == 0 {
-		return false, FuncKey(f) + " never serves through an auth-wrapped handler"
-	}
-	return true, fmt.Sprintf("handler function %s: every response path is ServeHTTP on an auth.RequireAuth value or a 400 helper", FuncKey(f))
+	return true, "", nAuth
 }
 
 func (a *c17Auth) onlyErrorReplies(f *ssa.Function) bool {
